@@ -1,13 +1,27 @@
 /-
   Properties C13 (an expression means the same however it is spelled) and C18 (parsed ASTs are
   well-formed) at the level of the expression parser `readGetter` / `parseFunction` / `parseArgs`.
+
+  1. `parsed_ast_well_formed`, `parseWholeExpr_well_formed`, `unknown_function_rejected`, `arity_rejected`
+  2. `alias_same_sig`, `alias_same_ast`, `parseFunction_alias`
+  3. `render`, `parse_render`, `parseWholeExpr_render`, `style_independent`, `separator_independent`
+  4. `dot_sugar`, `dot_sugar_unknown`, `dot_sugar_whole`
+  5. `parseWholeExpr_trailing_garbage`, `parseSelection_trailing_garbage`, `parsePreSet_trailing_garbage`,
+     `parseSorter_unknown_direction`, `garbage_after_render`, `render_run`
+
+  Findings about the model (= the Rust source, `selection.rs`):
+  * a blank directly after `(` is NOT skipped (`eat_whitespace` sees the `(` itself as the current
+    byte): `( take . 2)` is rejected with `unknownFunction ""`; the renderer writes `(name`.
+  * a constant is read back as `RT.norm v` (`neg i` with `i ≥ 0` comes back as `pos i`), so the
+    renderer is claimed for constants with `norm v = v`.
 -/
 import Jawk.Lemmas.PM
 import Jawk.Model.Expr
 import Jawk.Model.Run
 import Jawk.Lemmas.NoPanic
+import Jawk.Lemmas.RoundTrip
 namespace Jawk.PR
-open Jawk Jawk.NoPanic Reader
+open Jawk Jawk.NoPanic Jawk.RT Reader
 
 /-! ## 0. Boolean matchers for closed examples (`JV` / `Expr` have no `DecidableEq`) -/
 
@@ -522,8 +536,1729 @@ example : ∃ r r1 args b r2, findFunction (String.ofList (splitDot "take".toLis
   obtain ⟨b, h2⟩ := h2
   exact ⟨exReader, _, _, b, _, by decide +kernel, Prod.ext h1 rfl, Prod.ext h2 rfl, by decide⟩
 
+/-! ## 3. (C13) spelling: the parser reads back what the renderer writes -/
+
+theorem liftP_ok {α} {m : PM α} {r r' : Reader} {a : α} (h : m r = (.ok a, r')) :
+    liftP m r = (.ok a, r') := by simp [liftP, h]
+
+theorem EM.bind_ok {α β} {m : EM α} {f : α → EM β} {r r' : Reader} {a : α}
+    (h : m r = (.ok a, r')) : (m >>= f) r = f a r' := by
+  simp [EM.bind_apply, h]
+
+/-- `readUntil` from a current byte: the bytes up to the first stop byte (or the end) -/
+theorem readUntil_spec (stop : Byte → Bool) (bs tail : List Byte) (hbs : ∀ b ∈ bs, stop b = false)
+    (htail : ∀ b ∈ tail.head?, stop b = true) (r : Reader) (c : Byte) (hr : At r c (bs ++ tail))
+    (fuel : Nat) (hf : bs.length < fuel) (acc : List Byte) :
+    ∃ r', readUntil stop fuel acc r = (.ok (acc ++ bs), r') ∧ Peeked r' tail := by
+  induction bs generalizing r c fuel acc with
+  | nil =>
+    obtain ⟨fuel, rfl⟩ : ∃ k, fuel = k + 1 := ⟨fuel - 1, by omega⟩
+    obtain ⟨r', hn, hr'⟩ := next_at hr
+    refine ⟨r', ?_, hr'⟩
+    simp only [List.nil_append] at hn
+    unfold readUntil
+    rw [EM.bind_ok (liftP_ok hn)]
+    cases tail with
+    | nil => simp
+    | cons b t =>
+      have := htail b (by simp)
+      simp [this]
+  | cons x xs ih =>
+    obtain ⟨fuel, rfl⟩ : ∃ k, fuel = k + 1 := ⟨fuel - 1, by omega⟩
+    obtain ⟨r1, hn, hr1⟩ := next_at_cons (show At r c (x :: (xs ++ tail)) from hr)
+    obtain ⟨r2, h2, hr2⟩ := ih (fun b hb => hbs b (by simp [hb])) r1 x hr1 fuel
+      (by simp at hf; omega) (acc ++ [x])
+    refine ⟨r2, ?_, hr2⟩
+    unfold readUntil
+    rw [EM.bind_ok (liftP_ok hn)]
+    simp only [hbs x (by simp)]
+    simpa using h2
+
+theorem readParents_spec (p : Nat) (tail : List Byte) (htail : tail.head? ≠ some 94) (r : Reader)
+    (hr : Peeked r (List.replicate p 94 ++ tail)) (fuel : Nat) (hf : p < fuel) (n : Nat) :
+    ∃ r', readParents fuel n r = (.ok (n + p), r') ∧ Peeked r' tail := by
+  induction p generalizing r fuel n with
+  | zero =>
+    obtain ⟨fuel, rfl⟩ : ∃ k, fuel = k + 1 := ⟨fuel - 1, by omega⟩
+    simp only [List.replicate_zero, List.nil_append] at hr
+    refine ⟨r, ?_, hr⟩
+    unfold readParents
+    rw [EM.bind_ok (liftP_ok (peek_peeked hr))]
+    simp [htail]
+  | succ p ih =>
+    obtain ⟨fuel, rfl⟩ : ∃ k, fuel = k + 1 := ⟨fuel - 1, by omega⟩
+    have hr' : At r 94 (List.replicate p 94 ++ tail) := by
+      rw [List.replicate_succ, List.cons_append] at hr; exact hr
+    obtain ⟨r1, hn, hr1⟩ := next_at hr'
+    obtain ⟨r2, h2, hr2⟩ := ih r1 hr1 fuel (by omega) (n + 1)
+    refine ⟨r2, ?_, hr2⟩
+    unfold readParents
+    rw [EM.bind_ok (liftP_ok (peek_at hr'))]
+    simp only [if_true]
+    rw [EM.bind_ok (liftP_ok hn)]
+    rw [h2]
+    congr 2
+    omega
+
+/-! ### Steps of an extractor -/
+
+/-- a key that can be written after a dot: not empty, no byte that ends a key -/
+def KeyOK (k : Str) : Prop := k ≠ [] ∧ ∀ b ∈ utf8 k, keyStop b = false
+instance (k : Str) : Decidable (KeyOK k) := by unfold KeyOK; infer_instance
+
+def StepOK : Step → Prop
+  | .key k => KeyOK k
+  | .idx i => i < 2 ^ 64
+instance (s : Step) : Decidable (StepOK s) := by cases s <;> (unfold StepOK; infer_instance)
+
+def stepText : Step → Str
+  | .key k => '.' :: k
+  | .idx i => '#' :: Nat.toDigits 10 i
+
+def stepsText (steps : List Step) : Str := steps.flatMap stepText
+
+/-- what may follow the steps: a byte that ends a key and an index and starts no further step -/
+def StepDelim (tail : List Byte) : Prop :=
+  ∀ b ∈ tail.head?, keyStop b = true ∧ isDigit b = false ∧ b ≠ 46 ∧ b ≠ 35
+
+theorem utf8_ne_nil (s : Str) (h : s ≠ []) : utf8 s ≠ [] := by
+  intro h0
+  have h1 := utf8Decode_utf8 s
+  rw [h0] at h1
+  have h2 := utf8Decode_utf8 []
+  rw [utf8_nil, h1] at h2
+  exact h (by simpa using h2)
+
+theorem stepsText_cons (s : Step) (steps : List Step) : stepsText (s :: steps) = stepText s ++ stepsText steps := by
+  simp [stepsText]
+
+theorem utf8_dot_cons (s : Str) : utf8 ('.' :: s) = 46 :: utf8 s := by rw [utf8_cons]; rfl
+theorem utf8_hash_cons (s : Str) : utf8 ('#' :: s) = 35 :: utf8 s := by rw [utf8_cons]; rfl
+
+/-- the text of further steps starts with `.` or `#`: a fine end for the step before -/
+theorem stepsText_delim (steps : List Step) (tail : List Byte) (ht : StepDelim tail) :
+    ∀ b ∈ (utf8 (stepsText steps) ++ tail).head?, keyStop b = true ∧ isDigit b = false := by
+  cases steps with
+  | nil =>
+    intro b hb
+    simp only [stepsText, List.flatMap_nil, utf8_nil, List.nil_append] at hb
+    exact ⟨(ht b hb).1, (ht b hb).2.1⟩
+  | cons s steps =>
+    intro b hb
+    rw [stepsText_cons, utf8_append] at hb
+    cases s with
+    | key k =>
+      simp only [stepText, utf8_dot_cons, List.cons_append, List.head?_cons, Option.mem_def,
+        Option.some.injEq] at hb
+      subst hb; decide
+    | idx i =>
+      simp only [stepText, utf8_hash_cons, List.cons_append, List.head?_cons, Option.mem_def,
+        Option.some.injEq] at hb
+      subst hb; decide
+
+theorem toDigits_ne_nil (n : Nat) : Nat.toDigits 10 n ≠ [] := by
+  rw [Nat.toDigits_eq_if (by decide)]
+  split <;> simp
+
+theorem parseUsize_digits (i : Nat) (hi : i < 2 ^ 64) :
+    parseUsize ((Nat.toDigits 10 i).map byteOf) = some i := by
+  unfold parseUsize
+  rw [(digits_bytes _ (toDigits_isDigit i)).2.2, digitsToNat_toDigits]
+  simp [hi]
+
+/-- the loop body of `parseSteps` after the peek -/
+def stepsBody (fuel : Nat) (acc : List Step) (x : Option Byte) : EM (List Step) :=
+  match x with
+  | some 46 => do
+    let kb ← readUntil keyStop (fuel + 1) []
+    let key ← fromUtf8 kb
+    if key.isEmpty then
+      if acc.isEmpty then pure [] else do
+        let l ← emLoc
+        EM.fail (.missingKey l)
+    else parseSteps fuel (acc ++ [.key key])
+  | some 35 => do
+    let _ ← liftP next
+    let ds ← liftP (readDigits (fuel + 1) [])
+    if ds.isEmpty then
+      if acc.isEmpty then pure [] else do
+        let l ← emLoc
+        EM.fail (.missingKey l)
+    else
+      match parseUsize ds with
+      | some i => parseSteps fuel (acc ++ [.idx i])
+      | none => EM.fail .numberParse
+  | _ => pure acc
+
+theorem parseSteps_succ (fuel : Nat) (acc : List Step) :
+    parseSteps (fuel + 1) acc = (do let x ← liftP peek; stepsBody fuel acc x) := by
+  rw [parseSteps]; rfl
+
+theorem stepsBody_other (fuel : Nat) (acc : List Step) (x : Option Byte) (h1 : x ≠ some 46)
+    (h2 : x ≠ some 35) : stepsBody fuel acc x = pure acc := by
+  unfold stepsBody
+  split
+  · exact absurd rfl h1
+  · exact absurd rfl h2
+  · rfl
+
+theorem parseSteps_spec (steps : List Step) (hs : ∀ s ∈ steps, StepOK s) (tail : List Byte)
+    (ht : StepDelim tail) (r : Reader) (hr : Peeked r (utf8 (stepsText steps) ++ tail))
+    (fuel : Nat) (hf : (utf8 (stepsText steps)).length < fuel) (acc : List Step) :
+    ∃ r', parseSteps fuel acc r = (.ok (acc ++ steps), r') ∧ Peeked r' tail := by
+  induction steps generalizing r fuel acc with
+  | nil =>
+    obtain ⟨fuel, rfl⟩ : ∃ k, fuel = k + 1 := ⟨fuel - 1, by omega⟩
+    simp only [stepsText, List.flatMap_nil, utf8_nil, List.nil_append] at hr
+    refine ⟨r, ?_, hr⟩
+    rw [parseSteps_succ, EM.bind_ok (liftP_ok (peek_peeked hr)), stepsBody_other]
+    · simp
+    · intro h; exact (ht 46 h).2.2.1 rfl
+    · intro h; exact (ht 35 h).2.2.2 rfl
+  | cons s steps ih =>
+    obtain ⟨fuel, rfl⟩ : ∃ k, fuel = k + 1 := ⟨fuel - 1, by omega⟩
+    have hnext := stepsText_delim steps tail ht
+    rw [stepsText_cons, utf8_append] at hr hf
+    cases s with
+    | key k =>
+      obtain ⟨hk1, hk2⟩ : KeyOK k := hs (.key k) (by simp)
+      simp only [stepText, utf8_dot_cons, List.cons_append, List.append_assoc, List.length_cons,
+        List.length_append] at hr hf
+      have hr' : At r 46 (utf8 k ++ (utf8 (stepsText steps) ++ tail)) := hr
+      obtain ⟨r1, h1, hr1⟩ := readUntil_spec keyStop (utf8 k) _ hk2 (fun b hb => (hnext b hb).1) r 46 hr'
+        (fuel + 1) (by omega) []
+      obtain ⟨r2, h2, hr2⟩ := ih (fun s hs' => hs s (by simp [hs'])) r1 hr1 fuel (by omega) (acc ++ [.key k])
+      refine ⟨r2, ?_, hr2⟩
+      rw [parseSteps_succ, EM.bind_ok (liftP_ok (peek_at hr'))]
+      simp only [stepsBody]
+      rw [EM.bind_ok h1]
+      simp only [List.nil_append, fromUtf8, utf8Decode_utf8]
+      rw [EM.bind_ok (EM.pure_apply _ _)]
+      have : k.isEmpty = false := by cases k with
+        | nil => exact absurd rfl hk1
+        | cons _ _ => rfl
+      simp only [this]
+      simpa using h2
+    | idx i =>
+      have hi : i < 2 ^ 64 := hs (.idx i) (by simp)
+      have hd := digits_bytes _ (toDigits_isDigit i)
+      simp only [stepText, utf8_hash_cons, List.cons_append, List.append_assoc, List.length_cons,
+        List.length_append, hd.1] at hr hf
+      have hr' : At r 35 ((Nat.toDigits 10 i).map byteOf ++ (utf8 (stepsText steps) ++ tail)) := hr
+      obtain ⟨r1, hn, hr1⟩ := next_at hr'
+      obtain ⟨r2, h2, hr2⟩ := readDigits_ready _ hd.2.1 _ (fun b hb => (hnext b hb).2) r1 hr1.ready
+        (fuel + 1) (by omega) []
+      obtain ⟨r3, h3, hr3⟩ := ih (fun s hs' => hs s (by simp [hs'])) r2 hr2 fuel (by omega) (acc ++ [.idx i])
+      refine ⟨r3, ?_, hr3⟩
+      rw [parseSteps_succ, EM.bind_ok (liftP_ok (peek_at hr'))]
+      simp only [stepsBody]
+      rw [EM.bind_ok (liftP_ok hn), EM.bind_ok (liftP_ok h2)]
+      have : ((Nat.toDigits 10 i).map byteOf).isEmpty = false := by
+        have := toDigits_ne_nil i
+        cases h : Nat.toDigits 10 i with
+        | nil => exact absurd h this
+        | cons _ _ => rfl
+      simp only [List.nil_append, this, parseUsize_digits i hi]
+      simpa using h3
+
+
+/-! ### Dispatch of `read_getter` -/
+
+/-- the body of `read_getter` after white space has been skipped and the first byte `c` peeked -/
+def getterBody (fuel : Nat) (c : Byte) : EM Expr :=
+  if c = 46 || c = 35 || c = 94 then do
+    let parents ← readParents (fuel + 1) 0
+    let steps ← parseSteps (fuel + 1) []
+    pure (.extract parents steps)
+  else if c = 40 then parseFunction fuel
+  else if c = 58 || c = 64 then do
+    let nb ← readUntil varStop (fuel + 1) []
+    if nb.isEmpty then do
+      let l ← emLoc
+      EM.fail (.json (.unexpectedEof l))
+    else do
+      let name ← fromUtf8 nb
+      pure (if c = 58 then .var name else .macro name)
+  else if c = 38 then do
+    let nb ← readICtxName (fuel + 1) []
+    let name ← fromUtf8 nb
+    match ictxOfName name with
+    | some k => pure (.ictx k)
+    | none => EM.fail (.unknownInputContext name)
+  else if c = 47 then do
+    let nb ← readSelName (fuel + 1) []
+    let _ ← liftP next
+    if nb.isEmpty then do
+      let l ← emLoc
+      EM.fail (.json (.unexpectedEof l))
+    else do
+      let name ← fromUtf8 nb
+      pure (.selected (trimStr name))
+  else do
+    match (← liftP (nextValue (fuel + 1))) with
+    | none => EM.fail .unexpectedEof
+    | some v => pure (.const v)
+
+theorem readGetter_dispatch (ws : List Byte) (hws : ∀ b ∈ ws, isWs b = true) (c : Byte) (bs : List Byte)
+    (hc : isWs c = false) (r : Reader) (hr : Ready r (ws ++ c :: bs)) (fuel : Nat)
+    (hf : ws.length < fuel + 1) :
+    ∃ r1, At r1 c bs ∧ readGetter (fuel + 1) r = getterBody fuel c r1 := by
+  obtain ⟨r1, he, hr1⟩ := eatWhitespace_ready ws hws (c :: bs)
+    (by intro b hb; simp at hb; subst hb; exact hc) r hr (fuel + 1) hf
+  refine ⟨r1, hr1, ?_⟩
+  rw [readGetter, EM.bind_ok (liftP_ok he), EM.bind_ok (liftP_ok (peek_at hr1))]
+  rfl
+
+/-! ### Delimiters -/
+
+/-- a byte that ends every kind of getter: white space, `,` or `)` -/
+def isDelim (b : Byte) : Bool := isWs b || b = 44 || b = 41
+
+/-- what follows a getter: a delimiter or the end of the text -/
+def DelimRest (rest : List Byte) : Prop := ∀ b ∈ rest.head?, isDelim b = true
+
+theorem isDelim_cases {b : Byte} (h : isDelim b = true) :
+    b = 32 ∨ b = 10 ∨ b = 9 ∨ b = 13 ∨ b = 44 ∨ b = 41 := by
+  simp only [isDelim, isWs, Bool.or_eq_true, decide_eq_true_eq] at h
+  rcases h with ((((h | h) | h) | h) | h) | h <;> simp [h]
+
+theorem isDelim_props {b : Byte} (h : isDelim b = true) :
+    keyStop b = true ∧ varStop b = true ∧ fnNameStop b = true ∧ isDigit b = false ∧
+    b ≠ 46 ∧ b ≠ 35 ∧ b ≠ 94 ∧ b ≠ 101 ∧ b ≠ 69 := by
+  rcases isDelim_cases h with rfl | rfl | rfl | rfl | rfl | rfl <;> decide
+
+theorem DelimRest.stepDelim {rest : List Byte} (h : DelimRest rest) : StepDelim rest := by
+  intro b hb
+  have := isDelim_props (h b hb)
+  exact ⟨this.1, this.2.2.2.1, this.2.2.2.2.1, this.2.2.2.2.2.1⟩
+
+theorem DelimRest.numDelim {rest : List Byte} (h : DelimRest rest) : NumDelim rest := by
+  intro b hb
+  have := isDelim_props (h b hb)
+  exact ⟨this.2.2.2.1, this.2.2.2.2.1, this.2.2.2.2.2.2.2⟩
+
+
+/-! ### The renderer -/
+
+/-- a character of a separator: blank, line feed, tab, carriage return or comma -/
+def isSepChar (c : Char) : Bool := c = ' ' || c = '\n' || c = '\t' || c = '\r' || c = ','
+
+/-- How an expression is spelled: how constants are printed (`o`), what stands between the function
+name and the first argument and between two arguments (`sep`), what stands before the closing
+parenthesis (`close`), and which of its names a function is called by (`nm`). -/
+structure Style where
+  o : JsonOpts := {}
+  sep : Str := [' ']
+  close : Str := []
+  nm : String → String := id
+
+/-- `nm` maps every canonical name to itself or to one of its aliases -/
+def GoodNaming (nm : String → String) : Prop :=
+  ∀ e ∈ Generated.functionTable, nm e.1 = e.1 ∨ nm e.1 ∈ e.2.1
+
+/-- separators are non-empty and made of blanks and commas; names are names of the same function -/
+structure StyleOK (st : Style) : Prop where
+  sep_ne : st.sep ≠ []
+  sep_ok : ∀ c ∈ st.sep, isSepChar c = true
+  close_ok : ∀ c ∈ st.close, isSepChar c = true
+  nm_ok : GoodNaming st.nm
+
+/-- the steps of an extractor; the root (no step) is a lone dot -/
+def rootOrSteps : List Step → Str
+  | [] => ['.']
+  | s :: steps => stepsText (s :: steps)
+
+def ictxText : ICtxKind → Str
+  | .index => "index".toList
+  | .indexInFile => "index-in-file".toList
+  | .fileName => "file-name".toList
+  | .startLine => "started-at-line-number".toList
+  | .endLine => "ended-at-line-number".toList
+  | .startChar => "started-at-char-number".toList
+  | .endChar => "ended-at-char-number".toList
+
+mutual
+/-- the text of an expression in a given style -/
+def render (st : Style) : Expr → Str
+  | .extract p steps => List.replicate p '^' ++ rootOrSteps steps
+  | .const v => printJson st.o v
+  | .var n => ':' :: n
+  | .macro n => '@' :: n
+  | .call fn args => '(' :: ((st.nm fn).toList ++ renderArgs st args)
+  | .selected n => '/' :: (n ++ ['/'])
+  | .ictx k => '&' :: ictxText k
+/-- separator, argument, …, closing parenthesis -/
+def renderArgs (st : Style) : List Expr → Str
+  | [] => st.close ++ [')']
+  | a :: as => st.sep ++ (render st a ++ renderArgs st as)
+end
+
+/-- a variable / macro name that can be written after `:` / `@` -/
+def VarOK (n : Str) : Prop := n ≠ [] ∧ ∀ b ∈ utf8 n, varStop b = false
+instance (n : Str) : Decidable (VarOK n) := by unfold VarOK; infer_instance
+
+/-- a byte of a canonical input-context name: lower-case letter or `-` -/
+def isICtxByte (b : Byte) : Bool := (97 ≤ b && b ≤ 122) || b = 45
+
+theorem readICtxName_spec (bs tail : List Byte) (hbs : ∀ b ∈ bs, isICtxByte b = true)
+    (htail : ∀ b ∈ tail.head?, isDelim b = true) (r : Reader) (c : Byte) (hr : At r c (bs ++ tail))
+    (fuel : Nat) (hf : bs.length < fuel) (acc : List Byte) :
+    ∃ r', readICtxName fuel acc r = (.ok (acc ++ bs), r') ∧ Peeked r' tail := by
+  induction bs generalizing r c fuel acc with
+  | nil =>
+    obtain ⟨fuel, rfl⟩ : ∃ k, fuel = k + 1 := ⟨fuel - 1, by omega⟩
+    obtain ⟨r', hn, hr'⟩ := next_at hr
+    refine ⟨r', ?_, hr'⟩
+    simp only [List.nil_append] at hn
+    unfold readICtxName
+    rw [EM.bind_ok (liftP_ok hn)]
+    cases tail with
+    | nil => simp
+    | cons b t =>
+      have hb := isDelim_cases (htail b (by simp))
+      simp only [List.head?_cons, List.append_nil]
+      rcases hb with rfl | rfl | rfl | rfl | rfl | rfl <;> rfl
+  | cons x xs ih =>
+    obtain ⟨fuel, rfl⟩ : ∃ k, fuel = k + 1 := ⟨fuel - 1, by omega⟩
+    obtain ⟨r1, hn, hr1⟩ := next_at_cons (show At r c (x :: (xs ++ tail)) from hr)
+    obtain ⟨r2, h2, hr2⟩ := ih (fun b hb => hbs b (by simp [hb])) r1 x hr1 fuel
+      (by simp at hf; omega) (acc ++ [x])
+    refine ⟨r2, ?_, hr2⟩
+    unfold readICtxName
+    rw [EM.bind_ok (liftP_ok hn)]
+    have hx := hbs x (by simp)
+    simp only [isICtxByte, Bool.or_eq_true, decide_eq_true_eq] at hx
+    rcases hx with hx | hx
+    · simp only [hx, if_true]
+      simpa using h2
+    · subst hx
+      simpa using h2
+
+theorem readSelName_spec (bs tail : List Byte) (hbs : ∀ b ∈ bs, b ≠ 47) (r : Reader) (c : Byte)
+    (hr : At r c (bs ++ 47 :: tail)) (fuel : Nat) (hf : bs.length < fuel) (acc : List Byte) :
+    ∃ r', readSelName fuel acc r = (.ok (acc ++ bs), r') ∧ At r' 47 tail := by
+  induction bs generalizing r c fuel acc with
+  | nil =>
+    obtain ⟨fuel, rfl⟩ : ∃ k, fuel = k + 1 := ⟨fuel - 1, by omega⟩
+    obtain ⟨r', hn, hr'⟩ := next_at_cons (show At r c (47 :: tail) from hr)
+    refine ⟨r', ?_, hr'⟩
+    unfold readSelName
+    rw [EM.bind_ok (liftP_ok hn)]
+    simp
+  | cons x xs ih =>
+    obtain ⟨fuel, rfl⟩ : ∃ k, fuel = k + 1 := ⟨fuel - 1, by omega⟩
+    obtain ⟨r1, hn, hr1⟩ := next_at_cons (show At r c (x :: (xs ++ 47 :: tail)) from hr)
+    obtain ⟨r2, h2, hr2⟩ := ih (fun b hb => hbs b (by simp [hb])) r1 x hr1 fuel
+      (by simp at hf; omega) (acc ++ [x])
+    refine ⟨r2, ?_, hr2⟩
+    unfold readSelName
+    rw [EM.bind_ok (liftP_ok hn)]
+    simp only [hbs x (by simp), if_false]
+    simpa using h2
+
+/-- a selection name that can be written between slashes and is read back unchanged -/
+def SelOK (n : Str) : Prop := n ≠ [] ∧ trimStr n = n ∧ ∀ b ∈ utf8 n, b ≠ 47
+instance (n : Str) : Decidable (SelOK n) := by unfold SelOK; infer_instance
+
+theorem ictxText_ok (k : ICtxKind) :
+    (∀ b ∈ utf8 (ictxText k), isICtxByte b = true) ∧ ictxOfName (ictxText k) = some k := by
+  cases k <;> decide
+
+mutual
+/-- the ASTs the renderer is claimed for: extractors with writable keys and `usize` indices,
+constants that survive the JSON round trip, writable variable and macro names, calls within the
+arity bounds of the table, `/name/` getters with a trimmed name without slash, all `&name` getters -/
+def WFR (o : JsonOpts) : Expr → Prop
+  | .extract _ steps => ∀ s ∈ steps, StepOK s
+  | .const v => Printable o v ∧ norm v = v
+  | .var n => VarOK n
+  | .macro n => VarOK n
+  | .call fn args => ArityOK fn args.length ∧ WFRList o args
+  | .selected n => SelOK n
+  | .ictx _ => True
+def WFRList (o : JsonOpts) : List Expr → Prop
+  | [] => True
+  | a :: as => WFR o a ∧ WFRList o as
+end
+
+/-- `readGetter` reads the text of `e` (after any white space) and leaves the reader before `rest` -/
+def GetterSpec (st : Style) (e : Expr) : Prop :=
+  WFR st.o e → ∀ (ws : List Byte), (∀ b ∈ ws, isWs b = true) → ∀ (rest : List Byte), DelimRest rest →
+    ∀ (r : Reader), Ready r (ws ++ (utf8 (render st e) ++ rest)) →
+    ∀ (fuel : Nat), 2 * (ws.length + (utf8 (render st e)).length) + 4 ≤ fuel →
+    ∃ r', readGetter fuel r = (.ok e, r') ∧ Ready r' rest
+
+/-- `parseArgs` reads the arguments up to the closing parenthesis, which stays current -/
+def ArgsSpec (st : Style) (as : List Expr) : Prop :=
+  WFRList st.o as → ∀ (acc : List Expr) (rest : List Byte) (r : Reader),
+    Ready r (utf8 (renderArgs st as) ++ rest) →
+    ∀ (fuel : Nat), 2 * (utf8 (renderArgs st as)).length + 4 ≤ fuel →
+    ∃ r', parseArgs fuel acc r = (.ok (acc ++ as), r') ∧ At r' 41 rest
+
+/-! ### Milestone a: extractors -/
+
+theorem utf8_carets (p : Nat) : utf8 (List.replicate p '^') = List.replicate p 94 := by
+  induction p with
+  | zero => rfl
+  | succ p ih => rw [List.replicate_succ, utf8_cons, ih]; rfl
+
+theorem utf8_rootOrSteps_head (steps : List Step) :
+    ∃ c t, utf8 (rootOrSteps steps) = c :: t ∧ (c = 46 ∨ c = 35) := by
+  cases steps with
+  | nil => exact ⟨46, [], rfl, Or.inl rfl⟩
+  | cons s steps =>
+    cases s with
+    | key k => exact ⟨46, _, by rw [rootOrSteps, stepsText_cons, stepText, List.cons_append, utf8_dot_cons], Or.inl rfl⟩
+    | idx i => exact ⟨35, _, by rw [rootOrSteps, stepsText_cons, stepText, List.cons_append, utf8_hash_cons], Or.inr rfl⟩
+
+theorem rootOrSteps_spec (steps : List Step) (hs : ∀ s ∈ steps, StepOK s) (tail : List Byte)
+    (ht : StepDelim tail) (r : Reader) (hr : Peeked r (utf8 (rootOrSteps steps) ++ tail))
+    (fuel : Nat) (hf : (utf8 (rootOrSteps steps)).length < fuel) :
+    ∃ r', parseSteps fuel [] r = (.ok steps, r') ∧ Peeked r' tail := by
+  cases steps with
+  | nil =>
+    obtain ⟨fuel, rfl⟩ : ∃ k, fuel = k + 1 := ⟨fuel - 1, by omega⟩
+    have hr' : At r 46 ([] ++ tail) := hr
+    obtain ⟨r1, h1, hr1⟩ := readUntil_spec keyStop [] tail (by simp) (fun b hb => (ht b hb).1) r 46 hr'
+      (fuel + 1) (by simp) []
+    refine ⟨r1, ?_, hr1⟩
+    rw [parseSteps_succ, EM.bind_ok (liftP_ok (peek_at hr'))]
+    simp only [stepsBody]
+    rw [EM.bind_ok h1]
+    have : utf8Decode? [] = some [] := utf8Decode_utf8 []
+    simp only [List.append_nil, fromUtf8, this]
+    rfl
+  | cons s steps =>
+    obtain ⟨r', h, hr'⟩ := parseSteps_spec (s :: steps) hs tail ht r hr fuel hf []
+    exact ⟨r', by simpa using h, hr'⟩
+
+theorem getterBody_extract (fuel : Nat) (c : Byte) (hc : c = 46 ∨ c = 35 ∨ c = 94) :
+    getterBody fuel c = (do
+      let parents ← readParents (fuel + 1) 0
+      let steps ← parseSteps (fuel + 1) []
+      pure (.extract parents steps)) := by
+  rcases hc with rfl | rfl | rfl <;> rfl
+
+theorem getter_extract (st : Style) (p : Nat) (steps : List Step) : GetterSpec st (.extract p steps) := by
+  intro hwf ws hws rest hrest r hr fuel hf
+  obtain ⟨fuel, rfl⟩ : ∃ k, fuel = k + 1 := ⟨fuel - 1, by omega⟩
+  have htext : utf8 (render st (.extract p steps)) = List.replicate p 94 ++ utf8 (rootOrSteps steps) := by
+    rw [render, utf8_append, utf8_carets]
+  obtain ⟨c0, t0, hroot, hc0⟩ := utf8_rootOrSteps_head steps
+  rw [htext] at hr hf
+  -- the first byte
+  obtain ⟨c, t, hct, hc⟩ : ∃ c t, List.replicate p 94 ++ utf8 (rootOrSteps steps) = c :: t ∧
+      (c = 46 ∨ c = 35 ∨ c = 94) := by
+    cases p with
+    | zero => exact ⟨c0, t0, by simpa using hroot, by rcases hc0 with h | h <;> simp [h]⟩
+    | succ p => exact ⟨94, _, by rw [List.replicate_succ, List.cons_append], by simp⟩
+  have hcws : isWs c = false := by rcases hc with rfl | rfl | rfl <;> decide
+  have hr0 := hr
+  rw [hct, List.cons_append] at hr
+  obtain ⟨r1, hr1, hd⟩ := readGetter_dispatch ws hws c (t ++ rest) hcws r hr fuel (by omega)
+  have hp : Peeked r1 (List.replicate p 94 ++ (utf8 (rootOrSteps steps) ++ rest)) := by
+    rw [← List.append_assoc, hct]; exact hr1
+  obtain ⟨r2, h2, hr2⟩ := readParents_spec p (utf8 (rootOrSteps steps) ++ rest)
+    (by rw [hroot]; rcases hc0 with rfl | rfl <;> simp) r1 hp (fuel + 1)
+    (by simp only [List.length_append, List.length_replicate] at hf; omega) 0
+  obtain ⟨r3, h3, hr3⟩ := rootOrSteps_spec steps hwf rest hrest.stepDelim r2 hr2 (fuel + 1)
+    (by simp only [List.length_append, List.length_replicate] at hf; omega)
+  refine ⟨r3, ?_, hr3.ready⟩
+  rw [hd, getterBody_extract fuel c hc, EM.bind_ok h2, EM.bind_ok h3]
+  simp
+
+/-! ### Milestone a: variables and macros -/
+
+theorem getter_var (st : Style) (n : Str) : GetterSpec st (.var n) := by
+  intro hwf ws hws rest hrest r hr fuel hf
+  obtain ⟨fuel, rfl⟩ : ∃ k, fuel = k + 1 := ⟨fuel - 1, by omega⟩
+  obtain ⟨hn1, hn2⟩ : VarOK n := hwf
+  have htext : utf8 (render st (.var n)) = 58 :: utf8 n := by rw [render, utf8_cons]; rfl
+  rw [htext] at hr hf
+  rw [List.cons_append] at hr
+  obtain ⟨r1, hr1, hd⟩ := readGetter_dispatch ws hws 58 (utf8 n ++ rest) (by decide) r hr fuel (by omega)
+  obtain ⟨r2, h2, hr2⟩ := readUntil_spec varStop (utf8 n) rest hn2
+    (fun b hb => (isDelim_props (hrest b hb)).2.1) r1 58 hr1 (fuel + 1)
+    (by simp only [List.length_cons] at hf; omega) []
+  refine ⟨r2, ?_, hr2.ready⟩
+  have hne : (utf8 n).isEmpty = false := by
+    have := utf8_ne_nil n hn1
+    cases h : utf8 n with
+    | nil => exact absurd h this
+    | cons _ _ => rfl
+  rw [hd]
+  show (do
+      let nb ← readUntil varStop (fuel + 1) []
+      if nb.isEmpty then do
+        let l ← emLoc
+        EM.fail (.json (.unexpectedEof l))
+      else do
+        let name ← fromUtf8 nb
+        pure (Expr.var name)) r1 = _
+  rw [EM.bind_ok h2]
+  simp only [List.nil_append, hne, fromUtf8, utf8Decode_utf8]
+  rfl
+
+theorem getter_macro (st : Style) (n : Str) : GetterSpec st (.macro n) := by
+  intro hwf ws hws rest hrest r hr fuel hf
+  obtain ⟨fuel, rfl⟩ : ∃ k, fuel = k + 1 := ⟨fuel - 1, by omega⟩
+  obtain ⟨hn1, hn2⟩ : VarOK n := hwf
+  have htext : utf8 (render st (.macro n)) = 64 :: utf8 n := by rw [render, utf8_cons]; rfl
+  rw [htext] at hr hf
+  rw [List.cons_append] at hr
+  obtain ⟨r1, hr1, hd⟩ := readGetter_dispatch ws hws 64 (utf8 n ++ rest) (by decide) r hr fuel (by omega)
+  obtain ⟨r2, h2, hr2⟩ := readUntil_spec varStop (utf8 n) rest hn2
+    (fun b hb => (isDelim_props (hrest b hb)).2.1) r1 64 hr1 (fuel + 1)
+    (by simp only [List.length_cons] at hf; omega) []
+  refine ⟨r2, ?_, hr2.ready⟩
+  have hne : (utf8 n).isEmpty = false := by
+    have := utf8_ne_nil n hn1
+    cases h : utf8 n with
+    | nil => exact absurd h this
+    | cons _ _ => rfl
+  rw [hd]
+  show (do
+      let nb ← readUntil varStop (fuel + 1) []
+      if nb.isEmpty then do
+        let l ← emLoc
+        EM.fail (.json (.unexpectedEof l))
+      else do
+        let name ← fromUtf8 nb
+        pure (Expr.macro name)) r1 = _
+  rw [EM.bind_ok h2]
+  simp only [List.nil_append, hne, fromUtf8, utf8Decode_utf8]
+  rfl
+
+
+/-! ### Milestone a: input-context getters `&name` and selection getters `/name/` -/
+
+theorem getter_ictx (st : Style) (k : ICtxKind) : GetterSpec st (.ictx k) := by
+  intro _ ws hws rest hrest r hr fuel hf
+  obtain ⟨fuel, rfl⟩ : ∃ k, fuel = k + 1 := ⟨fuel - 1, by omega⟩
+  obtain ⟨hk1, hk2⟩ := ictxText_ok k
+  have htext : utf8 (render st (.ictx k)) = 38 :: utf8 (ictxText k) := by rw [render, utf8_cons]; rfl
+  rw [htext] at hr hf
+  rw [List.cons_append] at hr
+  obtain ⟨r1, hr1, hd⟩ := readGetter_dispatch ws hws 38 (utf8 (ictxText k) ++ rest) (by decide) r hr fuel
+    (by omega)
+  obtain ⟨r2, h2, hr2⟩ := readICtxName_spec (utf8 (ictxText k)) rest hk1 hrest r1 38 hr1 (fuel + 1)
+    (by simp only [List.length_cons] at hf; omega) []
+  refine ⟨r2, ?_, hr2.ready⟩
+  rw [hd]
+  show (do
+      let nb ← readICtxName (fuel + 1) []
+      let name ← fromUtf8 nb
+      match ictxOfName name with
+      | some k => pure (Expr.ictx k)
+      | none => EM.fail (.unknownInputContext name)) r1 = _
+  rw [EM.bind_ok h2]
+  simp only [List.nil_append, fromUtf8, utf8Decode_utf8]
+  rw [EM.bind_ok (EM.pure_apply _ _)]
+  simp only [hk2]
+  rfl
+
+theorem getter_selected (st : Style) (n : Str) : GetterSpec st (.selected n) := by
+  intro hwf ws hws rest _ r hr fuel hf
+  obtain ⟨fuel, rfl⟩ : ∃ k, fuel = k + 1 := ⟨fuel - 1, by omega⟩
+  obtain ⟨hn1, hn2, hn3⟩ : SelOK n := hwf
+  have htext : utf8 (render st (.selected n)) = 47 :: (utf8 n ++ [47]) := by
+    rw [render, utf8_cons, utf8_append]; rfl
+  rw [htext] at hr hf
+  rw [List.cons_append, List.append_assoc] at hr
+  simp only [List.length_cons, List.length_append, List.length_nil] at hf
+  obtain ⟨r1, hr1, hd⟩ := readGetter_dispatch ws hws 47 (utf8 n ++ ([47] ++ rest)) (by decide) r hr fuel
+    (by omega)
+  obtain ⟨r2, h2, hr2⟩ := readSelName_spec (utf8 n) rest hn3 r1 47 hr1 (fuel + 1) (by omega) []
+  obtain ⟨r3, h3, hr3⟩ := next_at hr2
+  refine ⟨r3, ?_, hr3.ready⟩
+  have hne : (utf8 n).isEmpty = false := by
+    have := utf8_ne_nil n hn1
+    cases h : utf8 n with
+    | nil => exact absurd h this
+    | cons _ _ => rfl
+  rw [hd]
+  show (do
+      let nb ← readSelName (fuel + 1) []
+      let _ ← liftP next
+      if nb.isEmpty then do
+        let l ← emLoc
+        EM.fail (.json (.unexpectedEof l))
+      else do
+        let name ← fromUtf8 nb
+        pure (Expr.selected (trimStr name))) r1 = _
+  rw [EM.bind_ok h2, EM.bind_ok (liftP_ok h3)]
+  simp only [List.nil_append, hne, fromUtf8, utf8Decode_utf8, Bool.false_eq_true, if_false]
+  rw [EM.bind_ok (EM.pure_apply _ _), hn2]
+  rfl
+
+/-! ### Milestone a: constants -/
+
+/-- the first byte of a printed JSON value -/
+def JsonHead (c : Byte) : Prop :=
+  c = 110 ∨ c = 102 ∨ c = 116 ∨ c = 34 ∨ c = 91 ∨ c = 123 ∨ c = 45 ∨ isDigit c = true
+
+theorem json_head (o : JsonOpts) (v : JV) (hv : Printable o v) :
+    ∃ c bs, utf8 (printJson o v) = c :: bs ∧ JsonHead c := by
+  unfold printJson
+  cases v with
+  | null => exact ⟨110, _, rfl, by simp [JsonHead]⟩
+  | bool b =>
+    cases b with
+    | false => exact ⟨102, _, rfl, by simp [JsonHead]⟩
+    | true => exact ⟨116, _, rfl, by simp [JsonHead]⟩
+  | str s => exact ⟨34, _, by rw [printJsonAt, utf8_printString], by simp [JsonHead]⟩
+  | num n =>
+    obtain ⟨c, bs, h1, h2⟩ := printNum_head n hv
+    refine ⟨c, bs, by rw [printJsonAt]; exact h1, ?_⟩
+    rcases h2 with h | h <;> simp [JsonHead, h]
+  | arr vs =>
+    cases vs with
+    | nil => exact ⟨91, _, rfl, by simp [JsonHead]⟩
+    | cons v vs => exact ⟨91, _, by rw [printJsonAt]; simp only [List.cons_append, utf8_cons]; rfl, by simp [JsonHead]⟩
+  | obj kvs =>
+    cases kvs with
+    | nil => exact ⟨123, _, rfl, by simp [JsonHead]⟩
+    | cons kv kvs => exact ⟨123, _, by rw [printJsonAt]; simp only [List.cons_append, utf8_cons]; rfl, by simp [JsonHead]⟩
+
+theorem JsonHead.props {c : Byte} (h : JsonHead c) :
+    isWs c = false ∧ c ≠ 44 ∧ c ≠ 41 ∧ c ≠ 46 ∧ c ≠ 35 ∧ c ≠ 94 ∧ c ≠ 40 ∧ c ≠ 58 ∧ c ≠ 64 ∧ c ≠ 38 ∧ c ≠ 47 := by
+  rcases h with rfl | rfl | rfl | rfl | rfl | rfl | rfl | h
+  any_goals decide
+  have h1 : 48 ≤ c.toNat ∧ c.toNat ≤ 57 := by
+    simpa [isDigit, UInt8.le_iff_toNat_le] using h
+  refine ⟨?_, ?_, ?_, ?_, ?_, ?_, ?_, ?_, ?_, ?_, ?_⟩
+  · simp only [isWs, Bool.or_eq_false_iff, decide_eq_false_iff_not]
+    refine ⟨⟨⟨?_, ?_⟩, ?_⟩, ?_⟩ <;> (intro h2; subst h2; simp at h1)
+  all_goals (intro h2; subst h2; simp at h1)
+
+theorem getterBody_const (fuel : Nat) (c : Byte) (hc : JsonHead c) :
+    getterBody fuel c = (do
+      match (← liftP (nextValue (fuel + 1))) with
+      | none => EM.fail .unexpectedEof
+      | some v => pure (.const v)) := by
+  obtain ⟨_, _, _, h1, h2, h3, h4, h5, h6, h7, h8⟩ := hc.props
+  simp [getterBody, h1, h2, h3, h4, h5, h6, h7, h8]
+
+theorem getter_const (st : Style) (v : JV) : GetterSpec st (.const v) := by
+  intro hwf ws hws rest hrest r hr fuel hf
+  obtain ⟨fuel, rfl⟩ : ∃ k, fuel = k + 1 := ⟨fuel - 1, by omega⟩
+  obtain ⟨hv, hnorm⟩ : Printable st.o v ∧ norm v = v := hwf
+  have htext : utf8 (render st (.const v)) = utf8 (printJson st.o v) := by rw [render]
+  obtain ⟨c, t, hct, hc⟩ := json_head st.o v hv
+  rw [htext] at hr hf
+  have hr0 := hr
+  rw [hct, List.cons_append] at hr
+  obtain ⟨r1, hr1, hd⟩ := readGetter_dispatch ws hws c (t ++ rest) hc.props.1 r hr fuel (by omega)
+  have hr1' : Ready r1 (utf8 (printJson st.o v) ++ rest) := by rw [hct]; exact hr1.ready
+  obtain ⟨r2, h2, hr2⟩ := parse_print_ready st.o v hv rest (Delim.of_numDelim hrest.numDelim) r1 hr1'
+    (fuel + 1) (by unfold fuelBound; omega)
+  refine ⟨r2, ?_, hr2⟩
+  rw [hd, getterBody_const fuel c hc, EM.bind_ok (liftP_ok h2), hnorm]
+  rfl
+
+
+/-! ### Milestone b: arguments and calls -/
+
+/-- the loop body of `parseArgs` after white space has been skipped -/
+def argsBody (fuel : Nat) (acc : List Expr) : EM (List Expr) := do
+  match (← liftP peek) with
+  | none => EM.fail .unexpectedEof
+  | some c =>
+    if c = 44 then do
+      let _ ← liftP next
+      parseArgs fuel acc
+    else if c = 41 then pure acc
+    else do
+      let a ← readGetter fuel
+      parseArgs fuel (acc ++ [a])
+
+/-- white space with fuel `k`, then the loop body with fuel `f` -/
+def wsThenBody (k f : Nat) (acc : List Expr) : EM (List Expr) := do
+  liftP (eatWhitespace k)
+  argsBody f acc
+
+theorem parseArgs_succ (fuel : Nat) (acc : List Expr) :
+    parseArgs (fuel + 1) acc = wsThenBody (fuel + 1) fuel acc := by
+  rw [parseArgs]; rfl
+
+/-- blanks and commas before an argument (or before the closing parenthesis) are skipped; each
+comma costs one unit of fuel -/
+theorem wsThenBody_pad (pad : List Byte) (hpad : ∀ b ∈ pad, isWs b = true ∨ b = 44) (tail : List Byte)
+    (htail : ∀ b ∈ tail.head?, isWs b = false ∧ b ≠ 44) (acc : List Expr) (r : Reader)
+    (hr : Ready r (pad ++ tail)) (k f : Nat) (hk : pad.length < k) (hf : pad.length ≤ f) :
+    ∃ f' r', f ≤ f' + pad.length ∧ f' ≤ f ∧ Peeked r' tail ∧
+      wsThenBody k f acc r = argsBody f' acc r' := by
+  induction pad generalizing r k f with
+  | nil =>
+    obtain ⟨r', he, hr'⟩ := eatWhitespace_ready [] (by simp) tail (fun b hb => (htail b hb).1) r hr k hk
+    refine ⟨f, r', by simp, Nat.le_refl _, hr', ?_⟩
+    unfold wsThenBody
+    rw [EM.bind_ok (liftP_ok he)]
+  | cons b pad ih =>
+    obtain ⟨k, rfl⟩ : ∃ k', k = k' + 1 := ⟨k - 1, by simp at hk; omega⟩
+    simp only [List.length_cons] at hk hf
+    obtain ⟨r1, hp, hr1⟩ := peek_ready hr
+    simp only [List.cons_append, List.head?_cons] at hp
+    have hr1' : At r1 b (pad ++ tail) := hr1
+    obtain ⟨r2, hn, hr2⟩ := next_at hr1'
+    by_cases hb : isWs b = true
+    · obtain ⟨f', r', h1, h2, h3, h4⟩ := ih (fun x hx => hpad x (by simp [hx])) r2 hr2.ready k f
+        (by omega) (by omega)
+      refine ⟨f', r', by simp only [List.length_cons]; omega, h2, h3, ?_⟩
+      rw [← h4]
+      unfold wsThenBody
+      rw [eatWhitespace]
+      simp only [EM.bind_apply, liftP, PM.bind_apply, hp, hb, if_true, hn]
+    · have hb44 : b = 44 := (hpad b (by simp)).resolve_left hb
+      subst hb44
+      obtain ⟨f, rfl⟩ : ∃ f', f = f' + 1 := ⟨f - 1, by omega⟩
+      obtain ⟨f', r', h1, h2, h3, h4⟩ := ih (fun x hx => hpad x (by simp [hx])) r2 hr2.ready (f + 1) f
+        (by omega) (by omega)
+      refine ⟨f', r', by simp only [List.length_cons]; omega, by omega, h3, ?_⟩
+      rw [← h4, ← parseArgs_succ]
+      unfold wsThenBody
+      rw [EM.bind_ok (liftP_ok (eatWhitespace_of_nonws k r r1 44 hp (by decide)))]
+      unfold argsBody
+      rw [EM.bind_ok (liftP_ok (peek_at hr1'))]
+      simp only [if_true]
+      rw [EM.bind_ok (liftP_ok hn)]
+
+theorem isSepChar_byte {c : Char} (h : isSepChar c = true) :
+    c.toNat < 128 ∧ (isWs (byteOf c) = true ∨ byteOf c = 44) := by
+  simp only [isSepChar, Bool.or_eq_true, decide_eq_true_eq] at h
+  rcases h with (((rfl | rfl) | rfl) | rfl) | rfl <;> decide
+
+theorem utf8_sep (s : Str) (h : ∀ c ∈ s, isSepChar c = true) :
+    (utf8 s).length = s.length ∧ ∀ b ∈ utf8 s, isWs b = true ∨ b = 44 := by
+  rw [utf8_ascii s (fun c hc => (isSepChar_byte (h c hc)).1)]
+  refine ⟨by simp, ?_⟩
+  intro b hb
+  obtain ⟨c, hc, rfl⟩ := List.mem_map.1 hb
+  exact (isSepChar_byte (h c hc)).2
+
+theorem sep_isDelim {b : Byte} (h : isWs b = true ∨ b = 44) : isDelim b = true := by
+  rcases h with h | h <;> simp [isDelim, h]
+
+/-- the first byte of a rendered getter is no blank, comma or closing parenthesis -/
+theorem render_head (st : Style) (e : Expr) (hwf : WFR st.o e) :
+    ∃ c t, utf8 (render st e) = c :: t ∧ isWs c = false ∧ c ≠ 44 ∧ c ≠ 41 := by
+  cases e with
+  | extract p steps =>
+    obtain ⟨c0, t0, hroot, hc0⟩ := utf8_rootOrSteps_head steps
+    rw [render, utf8_append, utf8_carets, hroot]
+    cases p with
+    | zero => exact ⟨c0, t0, by simp, by rcases hc0 with rfl | rfl <;> decide⟩
+    | succ p => exact ⟨94, _, by rw [List.replicate_succ, List.cons_append], by decide⟩
+  | const v =>
+    obtain ⟨c, t, hct, hc⟩ := json_head st.o v hwf.1
+    exact ⟨c, t, by rw [render]; exact hct, hc.props.1, hc.props.2.1, hc.props.2.2.1⟩
+  | var n => exact ⟨58, _, by rw [render, utf8_cons]; rfl, by decide⟩
+  | «macro» n => exact ⟨64, _, by rw [render, utf8_cons]; rfl, by decide⟩
+  | call fn args => exact ⟨40, _, by rw [render, utf8_cons]; rfl, by decide⟩
+  | selected n => exact ⟨47, _, by rw [render, utf8_cons]; rfl, by decide⟩
+  | ictx k => exact ⟨38, _, by rw [render, utf8_cons]; rfl, by decide⟩
+
+/-- the first byte of rendered arguments is a delimiter -/
+theorem renderArgs_head (st : Style) (hst : StyleOK st) (as : List Expr) :
+    ∃ c t, utf8 (renderArgs st as) = c :: t ∧ isDelim c = true := by
+  have key : ∀ (s : Str) (x : Str), (∀ c ∈ s, isSepChar c = true) →
+      (s ≠ [] ∨ ∃ c t, utf8 x = c :: t ∧ isDelim c = true) →
+      ∃ c t, utf8 (s ++ x) = c :: t ∧ isDelim c = true := by
+    intro s x hs hx
+    cases s with
+    | nil => simpa using hx.resolve_left (by simp)
+    | cons a s =>
+      have := isSepChar_byte (hs a (by simp))
+      refine ⟨byteOf a, utf8 (s ++ x), ?_, sep_isDelim this.2⟩
+      rw [List.cons_append, utf8_cons, utf8EncodeChar_ascii a this.1]; rfl
+  cases as with
+  | nil =>
+    rw [renderArgs]
+    exact key st.close [')'] hst.close_ok (Or.inr ⟨41, [], rfl, by decide⟩)
+  | cons a as =>
+    rw [renderArgs]
+    exact key st.sep _ hst.sep_ok (Or.inl hst.sep_ne)
+
+theorem args_nil (st : Style) (hst : StyleOK st) : ArgsSpec st [] := by
+  intro _ acc rest r hr fuel hf
+  obtain ⟨fuel, rfl⟩ : ∃ k, fuel = k + 1 := ⟨fuel - 1, by omega⟩
+  have hsep := utf8_sep st.close hst.close_ok
+  have htext : utf8 (renderArgs st []) = utf8 st.close ++ [41] := by rw [renderArgs, utf8_append]; rfl
+  rw [htext] at hr hf
+  rw [List.append_assoc] at hr
+  simp only [List.length_append, List.length_cons, List.length_nil] at hf
+  obtain ⟨f', r', _, _, hr', h⟩ := wsThenBody_pad (utf8 st.close) hsep.2 ([41] ++ rest)
+    (by intro b hb; simp at hb; subst hb; decide) acc r hr (fuel + 1) fuel (by omega) (by omega)
+  have hr'' : At r' 41 rest := hr'
+  refine ⟨r', ?_, hr''⟩
+  rw [parseArgs_succ, h]
+  unfold argsBody
+  rw [EM.bind_ok (liftP_ok (peek_at hr''))]
+  simp
+
+theorem args_cons (st : Style) (hst : StyleOK st) (a : Expr) (as : List Expr)
+    (ha : GetterSpec st a) (has : ArgsSpec st as) : ArgsSpec st (a :: as) := by
+  intro hwf acc rest r hr fuel hf
+  obtain ⟨hwa, hwas⟩ : WFR st.o a ∧ WFRList st.o as := hwf
+  obtain ⟨fuel, rfl⟩ : ∃ k, fuel = k + 1 := ⟨fuel - 1, by omega⟩
+  have hsep := utf8_sep st.sep hst.sep_ok
+  have hsep1 : 1 ≤ st.sep.length := by
+    cases h : st.sep with
+    | nil => exact absurd h hst.sep_ne
+    | cons _ _ => simp
+  have htext : utf8 (renderArgs st (a :: as)) =
+      utf8 st.sep ++ (utf8 (render st a) ++ utf8 (renderArgs st as)) := by
+    rw [renderArgs, utf8_append, utf8_append]
+  rw [htext] at hr hf
+  simp only [List.length_append] at hf
+  rw [List.append_assoc, List.append_assoc] at hr
+  obtain ⟨c, t, hct, hc1, hc2, hc3⟩ := render_head st a hwa
+  obtain ⟨f', r1, hf1, hf2, hr1, h1⟩ := wsThenBody_pad (utf8 st.sep) hsep.2
+    (utf8 (render st a) ++ (utf8 (renderArgs st as) ++ rest))
+    (by rw [hct]; intro b hb; simp at hb; subst hb; exact ⟨hc1, hc2⟩) acc r hr (fuel + 1) fuel
+    (by omega) (by omega)
+  obtain ⟨d, u, hdu, hd⟩ := renderArgs_head st hst as
+  obtain ⟨r2, h2, hr2⟩ := ha hwa [] (by simp) (utf8 (renderArgs st as) ++ rest)
+    (by rw [hdu]; intro b hb; simp at hb; subst hb; exact hd) r1 (by simpa using hr1.ready) f'
+    (by simp only [List.length_nil]; omega)
+  obtain ⟨r3, h3, hr3⟩ := has hwas (acc ++ [a]) rest r2 hr2 f' (by omega)
+  refine ⟨r3, ?_, hr3⟩
+  rw [parseArgs_succ, h1]
+  have hpk : At r1 c (t ++ (utf8 (renderArgs st as) ++ rest)) := by
+    have := hr1; rw [hct] at this; exact this
+  unfold argsBody
+  rw [EM.bind_ok (liftP_ok (peek_at hpk))]
+  simp only [hc2, hc3, if_false]
+  rw [EM.bind_ok h2, h3]
+  simp
+
+
+/-- a name that can be written after `(`: not empty, no leading dot, no byte that ends a name -/
+def nameOK (n : String) : Bool :=
+  n.toList ≠ [] && n.toList.head? != some '.' && (utf8 n.toList).all (fun b => !fnNameStop b)
+
+/-- every name and every alias of the regenerated table can be written after `(` -/
+theorem names_bytes_ok :
+    ∀ e ∈ Generated.functionTable, nameOK e.1 = true ∧ ∀ a ∈ e.2.1, nameOK a = true := by
+  decide +kernel
+
+theorem nameOK_props {n : String} (h : nameOK n = true) :
+    n.toList.head? ≠ some '.' ∧ ∀ b ∈ utf8 n.toList, fnNameStop b = false := by
+  simp only [nameOK, Bool.and_eq_true, bne_iff_ne, ne_eq, List.all_eq_true, Bool.not_eq_true',
+    decide_eq_true_eq] at h
+  exact ⟨h.1.2, h.2⟩
+
+/-- under a good naming, the chosen name can be written and resolves to the same function -/
+theorem goodNaming_resolves {nm : String → String} (hnm : GoodNaming nm)
+    (e : String × List String × Nat × Option Nat) (he : e ∈ Generated.functionTable) :
+    nameOK (nm e.1) = true ∧
+    findFunction (nm e.1) = some { name := e.1, min := e.2.2.1, max := e.2.2.2 } := by
+  rcases hnm e he with h | h
+  · rw [h]; exact ⟨(names_bytes_ok e he).1, canonical_resolves e he⟩
+  · exact ⟨(names_bytes_ok e he).2 _ h, by rw [alias_same_sig e he _ h]; exact canonical_resolves e he⟩
+
+theorem getter_call (st : Style) (hst : StyleOK st) (fn : String) (args : List Expr)
+    (hargs : ArgsSpec st args) : GetterSpec st (.call fn args) := by
+  intro hwf ws hws rest hrest r hr fuel hf
+  obtain ⟨⟨e, he, hfn, hmin, hmax⟩, hwas⟩ : ArityOK fn args.length ∧ WFRList st.o args := hwf
+  subst hfn
+  obtain ⟨hok, hfind⟩ := goodNaming_resolves hst.nm_ok e he
+  obtain ⟨hnodot, hbytes⟩ := nameOK_props hok
+  obtain ⟨fuel, rfl⟩ : ∃ k, fuel = k + 2 := ⟨fuel - 2, by omega⟩
+  have htext : utf8 (render st (.call e.1 args)) =
+      40 :: (utf8 (st.nm e.1).toList ++ utf8 (renderArgs st args)) := by
+    rw [render, utf8_cons, utf8_append]; rfl
+  rw [htext] at hr hf
+  simp only [List.length_cons, List.length_append] at hf
+  rw [List.cons_append, List.append_assoc] at hr
+  obtain ⟨r1, hr1, hd⟩ := readGetter_dispatch ws hws 40 _ (by decide) r hr (fuel + 1) (by omega)
+  obtain ⟨d, u, hdu, hdd⟩ := renderArgs_head st hst args
+  obtain ⟨r2, h2, hr2⟩ := readUntil_spec fnNameStop (utf8 (st.nm e.1).toList)
+    (utf8 (renderArgs st args) ++ rest) hbytes
+    (by rw [hdu]; intro b hb; simp at hb; subst hb; exact (isDelim_props hdd).2.2.1) r1 40 hr1
+    (fuel + 1) (by omega) []
+  obtain ⟨r3, h3, hr3⟩ := hargs hwas [] rest r2 hr2.ready fuel (by omega)
+  obtain ⟨r4, h4, hr4⟩ := next_at hr3
+  refine ⟨r4, ?_, hr4.ready⟩
+  rw [hd]
+  show parseFunction (fuel + 1) r1 = _
+  rw [parseFunction_eq,
+    EM.bind_ok (liftP_ok (eatWhitespace_of_nonws fuel r1 r1 40 (peek_at hr1) (by decide))),
+    EM.bind_ok h2]
+  simp only [List.nil_append, fromUtf8, utf8Decode_utf8]
+  rw [EM.bind_ok (EM.pure_apply _ _)]
+  have hsd := splitDot_of_no_dot _ hnodot
+  refine (arity_rejected (st.nm e.1).toList fuel _ r2 r3 r4 args _
+    (by rw [hsd]; simp only [String.ofList_toList]; exact hfind)
+    (by rw [hsd]; simpa using h3) h4).2.2 hmin hmax
+
+/-- **C13, spelling (`parse_render`, generic form).**  For every style made of non-empty
+blank/comma separators and names/aliases of the table, `readGetter` reads the rendered text of a
+renderable AST back to that AST and stops before `rest`. -/
+theorem spec_all (st : Style) (hst : StyleOK st) :
+    (∀ e : Expr, GetterSpec st e) ∧ (∀ as : List Expr, ArgsSpec st as) := by
+  have key : ∀ e : Expr, GetterSpec st e := by
+    intro e
+    induction e using Expr.rec (motive_2 := fun as => ArgsSpec st as) with
+    | extract p steps => exact getter_extract st p steps
+    | const v => exact getter_const st v
+    | call fn args ih => exact getter_call st hst fn args ih
+    | var n => exact getter_var st n
+    | «macro» n => exact getter_macro st n
+    | selected n => exact getter_selected st n
+    | ictx k => exact getter_ictx st k
+    | nil => exact args_nil st hst
+    | cons a as iha ihas => exact args_cons st hst a as iha ihas
+  refine ⟨key, ?_⟩
+  intro as
+  induction as with
+  | nil => exact args_nil st hst
+  | cons a as ih => exact args_cons st hst a as (key a) ih
+
+
+/-- **C13, spelling: `parse_render`.**  Reader form: after any white space `ws`, on the text of `e`
+in style `st` followed by `rest` (a delimiter — blank, `,`, `)` — or the end), with fuel twice the
+length of the text plus four, `readGetter` returns exactly `e` and leaves the reader before `rest`. -/
+theorem parse_render (st : Style) (hst : StyleOK st) (e : Expr) (he : WFR st.o e)
+    (ws : List Byte) (hws : ∀ b ∈ ws, isWs b = true) (rest : List Byte) (hrest : DelimRest rest)
+    (r : Reader) (hr : Ready r (ws ++ (utf8 (render st e) ++ rest)))
+    (fuel : Nat) (hf : 2 * (ws.length + (utf8 (render st e)).length) + 4 ≤ fuel) :
+    ∃ r', readGetter fuel r = (.ok e, r') ∧ Ready r' rest :=
+  (spec_all st hst).1 e he ws hws rest hrest r hr fuel hf
+
+theorem utf8_wsChars (s : Str) (h : ∀ c ∈ s, isWsChar c = true) :
+    (utf8 s).length = s.length ∧ ∀ b ∈ utf8 s, isWs b = true := by
+  have hc : ∀ c ∈ s, c.toNat < 128 ∧ isWs (byteOf c) = true := by
+    intro c hc
+    have := h c hc
+    simp only [isWsChar, Bool.or_eq_true, decide_eq_true_eq] at this
+    rcases this with ((rfl | rfl) | rfl) | rfl <;> decide
+  rw [utf8_ascii s (fun c h' => (hc c h').1)]
+  refine ⟨by simp, ?_⟩
+  intro b hb
+  obtain ⟨c, hc', rfl⟩ := List.mem_map.1 hb
+  exact (hc c hc').2
+
+/-- **`parse_render` for whole option texts.**  `Filter/Splitter/Grouper::from_str` on the rendered
+text, with any white space around it, gives the AST back. -/
+theorem parseWholeExpr_render (st : Style) (hst : StyleOK st) (e : Expr) (he : WFR st.o e)
+    (lead trail : Str) (hlead : ∀ c ∈ lead, isWsChar c = true) (htrail : ∀ c ∈ trail, isWsChar c = true) :
+    parseWholeExpr (lead ++ (render st e ++ trail)) = .ok e := by
+  obtain ⟨hl1, hl2⟩ := utf8_wsChars lead hlead
+  obtain ⟨ht1, ht2⟩ := utf8_wsChars trail htrail
+  obtain ⟨c, t, hct, hc1, _, _⟩ := render_head st e he
+  have hbytes : utf8 (lead ++ (render st e ++ trail)) = utf8 lead ++ (utf8 (render st e) ++ utf8 trail) := by
+    rw [utf8_append, utf8_append]
+  have hr0 : Ready (Reader.ofString (lead ++ (render st e ++ trail)))
+      (utf8 lead ++ (utf8 (render st e) ++ utf8 trail)) := by
+    rw [← hbytes]; exact ready_ofBytes _ _
+  have hlen : (utf8 (lead ++ (render st e ++ trail))).length =
+      (utf8 lead).length + ((utf8 (render st e)).length + (utf8 trail).length) := by
+    rw [hbytes]; simp
+  obtain ⟨r1, h1, hr1⟩ := eatWhitespace_ready (utf8 lead) hl2 (utf8 (render st e) ++ utf8 trail)
+    (by rw [hct]; intro b hb; simp at hb; subst hb; exact hc1) _ hr0
+    (exprFuel (lead ++ (render st e ++ trail))) (by unfold exprFuel; omega)
+  obtain ⟨r2, h2, hr2⟩ := parse_render st hst e he [] (by simp) (utf8 trail)
+    (by
+      intro b hb
+      have : b ∈ utf8 trail := List.mem_of_mem_head? hb
+      simp [isDelim, ht2 b this]) r1 (by simpa using hr1.ready)
+    (exprFuel (lead ++ (render st e ++ trail))) (by unfold exprFuel; simp only [List.length_nil]; omega)
+  obtain ⟨r3, h3, hr3⟩ := eatWhitespace_ready (utf8 trail) ht2 [] (by simp) r2 (by simpa using hr2)
+    (exprFuel (lead ++ (render st e ++ trail))) (by unfold exprFuel; omega)
+  unfold parseWholeExpr
+  simp only
+  rw [EM.bind_ok (liftP_ok h1), EM.bind_ok h2, EM.bind_ok (liftP_ok h3),
+    EM.bind_ok (liftP_ok (peek_peeked hr3))]
+  rfl
+
+/-- **C13: the style does not matter.**  Two spellings of the same AST — different separators
+(blanks, commas, both, line feeds, …), different padding before `)`, different aliases, different
+JSON styles for the constants, different white space around — parse to the same thing. -/
+theorem style_independent (st₁ st₂ : Style) (h₁ : StyleOK st₁) (h₂ : StyleOK st₂) (e : Expr)
+    (he₁ : WFR st₁.o e) (he₂ : WFR st₂.o e) (lead₁ trail₁ lead₂ trail₂ : Str)
+    (hl₁ : ∀ c ∈ lead₁, isWsChar c = true) (ht₁ : ∀ c ∈ trail₁, isWsChar c = true)
+    (hl₂ : ∀ c ∈ lead₂, isWsChar c = true) (ht₂ : ∀ c ∈ trail₂, isWsChar c = true) :
+    parseWholeExpr (lead₁ ++ (render st₁ e ++ trail₁)) = parseWholeExpr (lead₂ ++ (render st₂ e ++ trail₂)) := by
+  rw [parseWholeExpr_render st₁ h₁ e he₁ _ _ hl₁ ht₁, parseWholeExpr_render st₂ h₂ e he₂ _ _ hl₂ ht₂]
+
+/-! ### The four separator styles of the task -/
+
+/-- `(f a b)`, `(f,a,b)`, `(f, a, b)`, `(f , a , b )` -/
+inductive SepStyle where
+  | space | comma | commaSpace | padded
+  deriving DecidableEq, Repr
+
+def SepStyle.style : SepStyle → Style
+  | .space => { sep := [' '] }
+  | .comma => { sep := [','] }
+  | .commaSpace => { sep := [',', ' '] }
+  | .padded => { sep := [' ', ',', ' '], close := [' '] }
+
+theorem goodNaming_id : GoodNaming id := fun _ _ => Or.inl rfl
+
+theorem SepStyle.style_ok (sp : SepStyle) : StyleOK sp.style := by
+  cases sp <;> exact ⟨by decide, by decide, by decide, goodNaming_id⟩
+
+theorem SepStyle.style_o (sp : SepStyle) : sp.style.o = {} := by cases sp <;> rfl
+
+/-- the ASTs covered (constants printed with the default JSON options) -/
+def WellFormedR (e : Expr) : Prop := WFR {} e
+
+/-- the text of `e` with the separator style `sp` -/
+def renderSp (sp : SepStyle) (e : Expr) : Str := render sp.style e
+
+/-- `parse_render` for the four separator styles (all four are covered) -/
+theorem parse_render_sp (sp : SepStyle) (e : Expr) (he : WellFormedR e) :
+    parseWholeExpr (renderSp sp e) = .ok e := by
+  have := parseWholeExpr_render sp.style sp.style_ok e (by rw [sp.style_o]; exact he) [] []
+    (by simp) (by simp)
+  simpa [renderSp] using this
+
+/-- **COROLLARY `separator_independent`.** -/
+theorem separator_independent (e : Expr) (he : WellFormedR e) (sp₁ sp₂ : SepStyle) :
+    parseWholeExpr (renderSp sp₁ e) = parseWholeExpr (renderSp sp₂ e) := by
+  rw [parse_render_sp sp₁ e he, parse_render_sp sp₂ e he]
+
+/-- the renderable ASTs are well-formed in the sense of item 1 -/
+theorem WFR.wellFormed (o : JsonOpts) : ∀ e : Expr, WFR o e → WellFormed e := by
+  intro e
+  induction e using Expr.rec (motive_2 := fun as => WFRList o as → ∀ a ∈ as, WellFormed a) with
+  | call fn args ih =>
+    intro h
+    exact (wellFormed_call fn args).2 ⟨h.1, ih h.2⟩
+  | nil => rename_i ha; cases ha
+  | cons a as iha ihas =>
+    rename_i h x hx
+    rcases List.mem_cons.1 hx with rfl | hx
+    · exact iha h.1
+    · exact ihas h.2 x hx
+  | _ => intro _; rfl
+
+
+/-! ### Non-vacuity for item 3 -/
+
+/-- `(? (and true :x) (take ^.a#3 2) "hi" [1, {"k": null}])` -/
+def exE : Expr :=
+  .call "?" [.call "and" [.const (.bool true), .var "x".toList],
+    .call "take" [.extract 1 [.key "a".toList, .idx 3], .const (.num (.pos 2))],
+    .const (.arr [.str "hi".toList, .obj [("k".toList, .null)]])]
+
+theorem strOK_ascii (o : JsonOpts) (s : Str) (h : ∀ c ∈ s, c.toNat ≤ 0xFFFF) : StrOK o s :=
+  fun c hc => Or.inl (h c hc)
+
+theorem exE_wfr (o : JsonOpts) : WFR o exE := by
+  simp only [exE, WFR, WFRList, Printable, PrintableList, PrintableMembers, NumPrintable, and_true,
+    true_and]
+  refine ⟨(arityOK_iff _ _).1 (by decide +kernel), ⟨(arityOK_iff _ _).1 (by decide +kernel), ?_, ?_⟩,
+    ⟨(arityOK_iff _ _).1 (by decide +kernel), ?_, ?_, ?_⟩, ⟨?_, ?_, ?_⟩, ?_⟩
+  · rw [norm]
+  · decide
+  · decide
+  · decide
+  · rw [norm]; rfl
+  · exact strOK_ascii o _ (by decide)
+  · exact strOK_ascii o _ (by decide)
+  · decide
+  · simp [norm, normList, normMembers]
+
+example : WellFormedR exE := exE_wfr {}
+
+example : renderSp .space exE = "(? (and true :x) (take ^.a#3 2) [\"hi\", {\"k\": null}])".toList := by
+  decide +kernel
+example : renderSp .comma exE = "(?,(and,true,:x),(take,^.a#3,2),[\"hi\", {\"k\": null}])".toList := by
+  decide +kernel
+example : renderSp .padded exE =
+    "(? , (and , true , :x ) , (take , ^.a#3 , 2 ) , [\"hi\", {\"k\": null}] )".toList := by
+  decide +kernel
+example : parseWholeExpr (renderSp .commaSpace exE) = .ok exE := parse_render_sp _ _ (exE_wfr {})
+
+/-- input-context, selection and macro getters: `(| &index-in-file /my sel/ @m)` -/
+def exE2 : Expr := .call "|" [.ictx .indexInFile, .selected "my sel".toList, .macro "m".toList]
+theorem exE2_wfr (o : JsonOpts) : WFR o exE2 := by
+  simp only [exE2, WFR, WFRList, and_true, true_and]
+  exact ⟨(arityOK_iff _ _).1 (by decide +kernel), by decide, by decide⟩
+example : renderSp .commaSpace exE2 = "(|, &index-in-file, /my sel/, @m)".toList := by decide +kernel
+example : parseWholeExpr "(|, &index-in-file, /my sel/, @m)".toList = .ok exE2 :=
+  parse_render_sp .commaSpace exE2 (exE2_wfr {})
+
+/-- a style with line feeds and tabs, aliases and consise JSON -/
+def exStyle : Style :=
+  { o := { style := .consise }, sep := ['\n', '\t'], close := ['\r', ','],
+    nm := fun n => if n = "take" then "take_first" else if n = "?" then "if" else if n = "and" then "&&" else n }
+
+theorem exStyle_ok : StyleOK exStyle :=
+  ⟨by decide, by decide, by decide, by unfold GoodNaming; decide +kernel⟩
+
+example : render exStyle exE =
+    "(if\n\t(&&\n\ttrue\n\t:x\r,)\n\t(take_first\n\t^.a#3\n\t2\r,)\n\t[\"hi\",{\"k\":null}]\r,)".toList := by
+  decide +kernel
+
+example : parseWholeExpr (" ".toList ++ (render exStyle exE ++ "\n".toList)) = parseWholeExpr (renderSp .space exE) := by
+  have := style_independent exStyle SepStyle.space.style exStyle_ok (SepStyle.style_ok _) exE (exE_wfr _)
+    (exE_wfr _) " ".toList "\n".toList [] [] (by decide) (by decide) (by simp) (by simp)
+  simpa [renderSp] using this
+
+/-- the three spellings of the task statement -/
+example : parseWholeExpr "(take . 2)".toList = .ok take2 ∧ parseWholeExpr "(take ., 2)".toList = .ok take2 ∧
+    parseWholeExpr "(.take 2)".toList = .ok take2 :=
+  ⟨isOk_eq (by decide +kernel), isOk_eq (by decide +kernel), isOk_eq (by decide +kernel)⟩
+
+/-- the hypotheses matter: a key with a dot in it is read back as two keys; a blank directly after
+`(` is not skipped (the name is empty) -/
+example : ¬ KeyOK "a.b".toList := by decide
+example : isOk (parseWholeExpr (render {} (.extract 0 [.key "a.b".toList]))) (.extract 0 [.key "a".toList, .key "b".toList]) = true := by
+  decide +kernel
+example : isRejected (parseWholeExpr "( take . 2)".toList) 0 "" = true := by decide +kernel
+
+/-! ## 4. (C13) dot sugar: `(.f args)` is `(f . args)` -/
+
+/-- the root extractor `.` -/
+def root : Expr := .extract 0 []
+
+theorem root_wfr (o : JsonOpts) : WFR o root := by
+  intro s hs; cases hs
+
+theorem render_root (st : Style) : utf8 (render st root) = [46] := rfl
+
+/-- a lone dot followed by a delimiter is the root extractor -/
+theorem readGetter_root (A : List Byte) (hA : DelimRest A) (r : Reader) (hr : Ready r (46 :: A))
+    (fuel : Nat) (hf : 6 ≤ fuel) : ∃ r', readGetter fuel r = (.ok root, r') ∧ Ready r' A :=
+  parse_render {} ⟨by decide, by decide, by decide, goodNaming_id⟩ root (root_wfr _) [] (by simp) A hA r
+    (by simpa [render_root] using hr) fuel (by simp [render_root]; omega)
+
+/-- after the name: `␣. A` with no argument yet is `A` with the argument `.` (one unit of fuel less) -/
+theorem finishCall_dot (sig : FnSig) (A : List Byte) (hA : DelimRest A) (r : Reader)
+    (hr : Ready r (32 :: 46 :: A)) (F : Nat) (hF : 6 ≤ F) :
+    ∃ r', Ready r' A ∧ finishCall sig (F + 1) [] r = finishCall sig F [root] r' := by
+  obtain ⟨r1, h1, hr1⟩ := eatWhitespace_ready [32] (by decide) (46 :: A)
+    (by intro b hb; simp at hb; subst hb; decide) r hr (F + 1) (by simp; omega)
+  have hr1' : At r1 46 A := hr1
+  obtain ⟨r2, h2, hr2⟩ := readGetter_root A hA r1 hr1'.ready F hF
+  refine ⟨r2, hr2, ?_⟩
+  have hargs : parseArgs (F + 1) [] r = parseArgs F [root] r2 := by
+    rw [parseArgs_succ]
+    unfold wsThenBody
+    rw [EM.bind_ok (liftP_ok h1)]
+    unfold argsBody
+    rw [EM.bind_ok (liftP_ok (peek_at hr1'))]
+    simp only [show ¬ ((46 : Byte) = 44) by decide, show ¬ ((46 : Byte) = 41) by decide, if_false]
+    rw [EM.bind_ok h2]
+    rfl
+  unfold finishCall
+  simp only [EM.bind_apply, hargs]
+
+/-- `(.name A`: the dot is stripped from the name and `.` becomes the first argument -/
+theorem dot_call_left (name : Str) (hname : ∀ b ∈ utf8 name, fnNameStop b = false)
+    (sig : FnSig) (hsig : findFunction (String.ofList name) = some sig)
+    (A : List Byte) (hA : ∀ b ∈ A.head?, fnNameStop b = true) (r : Reader)
+    (h : At r 40 (46 :: (utf8 name ++ A))) (F : Nat) (hF : (utf8 name).length + 1 ≤ F) :
+    ∃ r', Peeked r' A ∧ parseFunction (F + 1) r = finishCall sig F [root] r' := by
+  obtain ⟨ra, ha, hra⟩ := readUntil_spec fnNameStop (46 :: utf8 name) A
+    (by intro b hb; rcases List.mem_cons.1 hb with rfl | hb
+        · decide
+        · exact hname b hb)
+    hA r 40 h (F + 1) (by simp; omega) []
+  refine ⟨ra, hra, ?_⟩
+  rw [parseFunction_eq,
+    EM.bind_ok (liftP_ok (eatWhitespace_of_nonws F r r 40 (peek_at h) (by decide))),
+    EM.bind_ok ha]
+  have : utf8Decode? (46 :: utf8 name) = some ('.' :: name) := by
+    rw [← utf8_dot_cons]; exact utf8Decode_utf8 _
+  simp only [List.nil_append, fromUtf8, this]
+  rw [EM.bind_ok (EM.pure_apply _ _)]
+  unfold resolveCall
+  rw [splitDot_dot]
+  simp only [hsig]
+  rfl
+
+/-- **C13 (4) `dot_sugar`.**  Let `name` be a function name (written without stop bytes, not
+starting with a dot) that the table knows, and `A` any argument text starting with a delimiter
+(blank, comma, `)`) or empty.  On `(.name A` and on `(name . A` the parser does the same thing:
+it continues with `finishCall sig _ [.]` — parse the remaining arguments `A` after the first
+argument `.` — on a reader that stands before `A` (only the fuel left differs by one). -/
+theorem dot_sugar (name : Str) (hname : ∀ b ∈ utf8 name, fnNameStop b = false)
+    (hnd : name.head? ≠ some '.') (sig : FnSig) (hsig : findFunction (String.ofList name) = some sig)
+    (A : List Byte) (hA : DelimRest A) (r₁ r₂ : Reader)
+    (h₁ : At r₁ 40 (46 :: (utf8 name ++ A))) (h₂ : At r₂ 40 (utf8 name ++ 32 :: 46 :: A))
+    (F : Nat) (hF : (utf8 name).length + 6 ≤ F) :
+    ∃ r₁' r₂', Ready r₁' A ∧ Ready r₂' A ∧
+      parseFunction (F + 2) r₁ = finishCall sig (F + 1) [root] r₁' ∧
+      parseFunction (F + 2) r₂ = finishCall sig F [root] r₂' := by
+  -- `(.name A`
+  obtain ⟨ra, ha, hra⟩ := readUntil_spec fnNameStop (46 :: utf8 name) A
+    (by intro b hb; rcases List.mem_cons.1 hb with rfl | hb
+        · decide
+        · exact hname b hb)
+    (fun b hb => (isDelim_props (hA b hb)).2.2.1) r₁ 40 h₁ (F + 2) (by simp; omega) []
+  -- `(name . A`
+  obtain ⟨rb, hb, hrb⟩ := readUntil_spec fnNameStop (utf8 name) (32 :: 46 :: A) hname
+    (by intro b hb; simp at hb; subst hb; decide) r₂ 40 h₂ (F + 2) (by omega) []
+  obtain ⟨rc, hrc, hc⟩ := finishCall_dot sig A hA rb hrb.ready F (by omega)
+  refine ⟨ra, rc, hra.ready, hrc, ?_, ?_⟩
+  · rw [parseFunction_eq,
+      EM.bind_ok (liftP_ok (eatWhitespace_of_nonws (F + 1) r₁ r₁ 40 (peek_at h₁) (by decide))),
+      EM.bind_ok ha]
+    have : utf8Decode? (46 :: utf8 name) = some ('.' :: name) := by
+      rw [← utf8_dot_cons]; exact utf8Decode_utf8 _
+    simp only [List.nil_append, fromUtf8, this]
+    rw [EM.bind_ok (EM.pure_apply _ _)]
+    unfold resolveCall
+    rw [splitDot_dot]
+    simp only [hsig]
+    rfl
+  · rw [parseFunction_eq,
+      EM.bind_ok (liftP_ok (eatWhitespace_of_nonws (F + 1) r₂ r₂ 40 (peek_at h₂) (by decide))),
+      EM.bind_ok hb]
+    simp only [List.nil_append, fromUtf8, utf8Decode_utf8]
+    rw [EM.bind_ok (EM.pure_apply _ _)]
+    unfold resolveCall
+    rw [splitDot_of_no_dot _ hnd]
+    simp only [hsig]
+    exact hc
+
+/-- … and an unknown name is rejected the same way in both spellings -/
+theorem dot_sugar_unknown (name : Str) (hname : ∀ b ∈ utf8 name, fnNameStop b = false)
+    (hnd : name.head? ≠ some '.') (hsig : findFunction (String.ofList name) = none)
+    (A : List Byte) (hA : DelimRest A) (r₁ r₂ : Reader)
+    (h₁ : At r₁ 40 (46 :: (utf8 name ++ A))) (h₂ : At r₂ 40 (utf8 name ++ 32 :: 46 :: A))
+    (F : Nat) (hF : (utf8 name).length + 2 ≤ F) :
+    (parseFunction (F + 1) r₁).1 = .error (.unknownFunction name) ∧
+    (parseFunction (F + 1) r₂).1 = .error (.unknownFunction name) := by
+  obtain ⟨ra, ha, hra⟩ := readUntil_spec fnNameStop (46 :: utf8 name) A
+    (by intro b hb; rcases List.mem_cons.1 hb with rfl | hb
+        · decide
+        · exact hname b hb)
+    (fun b hb => (isDelim_props (hA b hb)).2.2.1) r₁ 40 h₁ (F + 1) (by simp; omega) []
+  obtain ⟨rb, hb, hrb⟩ := readUntil_spec fnNameStop (utf8 name) (32 :: 46 :: A) hname
+    (by intro b hb; simp at hb; subst hb; decide) r₂ 40 h₂ (F + 1) (by omega) []
+  have hdec : utf8Decode? (46 :: utf8 name) = some ('.' :: name) := by
+    rw [← utf8_dot_cons]; exact utf8Decode_utf8 _
+  constructor
+  · rw [parseFunction_unknown_rejected F r₁ r₁ ra _ ('.' :: name)
+      (eatWhitespace_of_nonws F r₁ r₁ 40 (peek_at h₁) (by decide)) (by simpa using ha) hdec
+      (by rw [splitDot_dot]; exact hsig)]
+    rfl
+  · rw [parseFunction_unknown_rejected F r₂ r₂ rb _ name
+      (eatWhitespace_of_nonws F r₂ r₂ 40 (peek_at h₂) (by decide)) (by simpa using hb)
+      (utf8Decode_utf8 _) (by rw [splitDot_of_no_dot _ hnd]; exact hsig)]
+    rw [splitDot_of_no_dot _ hnd]
+
+
+/-- the end of `parse_function`: closing parenthesis and arity checks -/
+theorem finishCall_ok_of (sig : FnSig) (F : Nat) (pre args : List Expr) (r r1 r2 : Reader) (b : Option Byte)
+    (hargs : parseArgs F pre r = (.ok args, r1)) (hnext : next r1 = (.ok b, r2))
+    (h1 : sig.min ≤ args.length) (h2 : ∀ m, sig.max = some m → args.length ≤ m) :
+    finishCall sig F pre r = (.ok (.call sig.name args), r2) := by
+  unfold finishCall
+  simp only [EM.bind_apply, hargs, liftP, hnext]
+  have : ¬ args.length < sig.min := by omega
+  simp only [this, if_false]
+  cases hm : sig.max with
+  | none => rfl
+  | some m =>
+    have : ¬ args.length > m := by have := h2 m hm; omega
+    simp only [this, decide_false]; rfl
+
+/-- the text `(.name args…)` -/
+def renderDot (st : Style) (fn : String) (as : List Expr) : Str :=
+  '(' :: '.' :: ((st.nm fn).toList ++ renderArgs st as)
+
+/-- `(.f args…)` is read as the call of `f` with the arguments `.`, `args…` -/
+theorem getter_dot_call (st : Style) (hst : StyleOK st) (fn : String) (as : List Expr)
+    (hwf : WFR st.o (.call fn (root :: as))) (ws : List Byte) (hws : ∀ b ∈ ws, isWs b = true)
+    (rest : List Byte) (r : Reader) (hr : Ready r (ws ++ (utf8 (renderDot st fn as) ++ rest)))
+    (fuel : Nat) (hf : 2 * (ws.length + (utf8 (renderDot st fn as)).length) + 4 ≤ fuel) :
+    ∃ r', readGetter fuel r = (.ok (.call fn (root :: as)), r') ∧ Ready r' rest := by
+  obtain ⟨⟨e, he, hfn, hmin, hmax⟩, _, hwas⟩ :
+    ArityOK fn (root :: as).length ∧ WFR st.o root ∧ WFRList st.o as := hwf
+  subst hfn
+  obtain ⟨hok, hfind⟩ := goodNaming_resolves hst.nm_ok e he
+  obtain ⟨hnodot, hbytes⟩ := nameOK_props hok
+  obtain ⟨fuel, rfl⟩ : ∃ k, fuel = k + 2 := ⟨fuel - 2, by omega⟩
+  have htext : utf8 (renderDot st e.1 as) =
+      40 :: 46 :: (utf8 (st.nm e.1).toList ++ utf8 (renderArgs st as)) := by
+    rw [renderDot, utf8_cons, utf8_cons, utf8_append]; rfl
+  rw [htext] at hr hf
+  simp only [List.length_cons, List.length_append] at hf
+  rw [List.cons_append, List.cons_append, List.append_assoc] at hr
+  obtain ⟨r1, hr1, hd⟩ := readGetter_dispatch ws hws 40 _ (by decide) r hr (fuel + 1) (by omega)
+  obtain ⟨d, u, hdu, hdd⟩ := renderArgs_head st hst as
+  obtain ⟨r2, hr2, h2⟩ := dot_call_left (st.nm e.1).toList hbytes _
+    (by simp only [String.ofList_toList]; exact hfind) (utf8 (renderArgs st as) ++ rest)
+    (by rw [hdu]; intro b hb; simp at hb; subst hb; exact (isDelim_props hdd).2.2.1) r1 hr1 fuel (by omega)
+  obtain ⟨r3, h3, hr3⟩ := (spec_all st hst).2 as hwas [root] rest r2 hr2.ready fuel (by omega)
+  obtain ⟨r4, h4, hr4⟩ := next_at hr3
+  refine ⟨r4, ?_, hr4.ready⟩
+  rw [hd]
+  show parseFunction (fuel + 1) r1 = _
+  rw [h2]
+  exact finishCall_ok_of _ fuel [root] _ r2 r3 r4 _ (by simpa using h3) h4 hmin hmax
+
+/-- a getter text with white space around it is what `parseWholeExpr` accepts -/
+theorem parseWholeExpr_of_getter (text : Str) (e : Expr)
+    (hhead : ∃ c t, utf8 text = c :: t ∧ isWs c = false)
+    (h : ∀ (rest : List Byte), DelimRest rest → ∀ (r : Reader), Ready r ([] ++ (utf8 text ++ rest)) →
+      ∀ fuel, 2 * (([] : List Byte).length + (utf8 text).length) + 4 ≤ fuel →
+      ∃ r', readGetter fuel r = (.ok e, r') ∧ Ready r' rest)
+    (lead trail : Str) (hlead : ∀ c ∈ lead, isWsChar c = true) (htrail : ∀ c ∈ trail, isWsChar c = true) :
+    parseWholeExpr (lead ++ (text ++ trail)) = .ok e := by
+  obtain ⟨hl1, hl2⟩ := utf8_wsChars lead hlead
+  obtain ⟨ht1, ht2⟩ := utf8_wsChars trail htrail
+  obtain ⟨c, t, hct, hc1⟩ := hhead
+  have hbytes : utf8 (lead ++ (text ++ trail)) = utf8 lead ++ (utf8 text ++ utf8 trail) := by
+    rw [utf8_append, utf8_append]
+  have hr0 : Ready (Reader.ofString (lead ++ (text ++ trail)))
+      (utf8 lead ++ (utf8 text ++ utf8 trail)) := by
+    rw [← hbytes]; exact ready_ofBytes _ _
+  have hlen : (utf8 (lead ++ (text ++ trail))).length =
+      (utf8 lead).length + ((utf8 text).length + (utf8 trail).length) := by
+    rw [hbytes]; simp
+  obtain ⟨r1, h1, hr1⟩ := eatWhitespace_ready (utf8 lead) hl2 (utf8 text ++ utf8 trail)
+    (by rw [hct]; intro b hb; simp at hb; subst hb; exact hc1) _ hr0
+    (exprFuel (lead ++ (text ++ trail))) (by unfold exprFuel; omega)
+  obtain ⟨r2, h2, hr2⟩ := h (utf8 trail)
+    (by
+      intro b hb
+      have : b ∈ utf8 trail := List.mem_of_mem_head? hb
+      simp [isDelim, ht2 b this]) r1 (by simpa using hr1.ready)
+    (exprFuel (lead ++ (text ++ trail))) (by unfold exprFuel; simp only [List.length_nil]; omega)
+  obtain ⟨r3, h3, hr3⟩ := eatWhitespace_ready (utf8 trail) ht2 [] (by simp) r2 (by simpa using hr2)
+    (exprFuel (lead ++ (text ++ trail))) (by unfold exprFuel; omega)
+  unfold parseWholeExpr
+  simp only
+  rw [EM.bind_ok (liftP_ok h1), EM.bind_ok h2, EM.bind_ok (liftP_ok h3),
+    EM.bind_ok (liftP_ok (peek_peeked hr3))]
+  rfl
+
+/-- **C13 (4), whole texts.**  For every renderable argument list, `(.f args…)` and `(f . args…)`
+(in any style: separators, aliases) are both accepted and give the same AST, the call of `f`
+with the root extractor as first argument. -/
+theorem dot_sugar_whole (st : Style) (hst : StyleOK st) (fn : String) (as : List Expr)
+    (hwf : WFR st.o (.call fn (root :: as))) :
+    parseWholeExpr (renderDot st fn as) = .ok (.call fn (root :: as)) ∧
+    parseWholeExpr (render st (.call fn (root :: as))) = .ok (.call fn (root :: as)) := by
+  constructor
+  · have := parseWholeExpr_of_getter (renderDot st fn as) (.call fn (root :: as))
+      ⟨40, _, by rw [renderDot, utf8_cons]; rfl, by decide⟩
+      (fun rest _ r hr fuel hf => getter_dot_call st hst fn as hwf [] (by simp) rest r hr fuel hf)
+      [] [] (by simp) (by simp)
+    simpa using this
+  · have := parseWholeExpr_render st hst _ hwf [] [] (by simp) (by simp)
+    simpa using this
+
+/-- non-vacuity: `(.take 2)` and `(take . 2)`; `(.take_first,2)` -/
+example : renderDot {} "take" [.const (.num (.pos 2))] = "(.take 2)".toList ∧
+    render {} (.call "take" [root, .const (.num (.pos 2))]) = "(take . 2)".toList ∧
+    renderDot { sep := [','], nm := fun _ => "take_first" } "take" [.const (.num (.pos 2))] = "(.take_first,2)".toList := by
+  decide +kernel
+example : WFR {} (.call "take" [root, .const (.num (.pos 2))]) := by
+  simp only [WFR, WFRList, root, Printable, NumPrintable, and_true]
+  exact ⟨(arityOK_iff _ _).1 (by decide +kernel), by decide, by decide, by rw [norm]; rfl⟩
+/-- hypotheses of `dot_sugar` -/
+example : (∀ b ∈ utf8 "take".toList, fnNameStop b = false) ∧ "take".toList.head? ≠ some '.' ∧
+    findFunction (String.ofList "take".toList) = some ⟨"take", 2, some 2⟩ ∧ DelimRest (utf8 " 2)".toList) := by
+  refine ⟨by decide, by decide, by decide +kernel, ?_⟩
+  have h : utf8 " 2)".toList = [32, 50, 41] := by decide
+  rw [h]
+  intro b hb
+  have : b = 32 := by simpa [eq_comm] using hb
+  subst this; decide
+
+/-! ## 5. (C18) trailing garbage is rejected in every option position -/
+
+theorem mem_takeWhile {α} (p : α → Bool) (l : List α) : ∀ x ∈ l.takeWhile p, p x = true := by
+  induction l with
+  | nil => intro x hx; cases hx
+  | cons a l ih =>
+    intro x hx
+    rw [List.takeWhile_cons] at hx
+    split at hx
+    · rcases List.mem_cons.1 hx with rfl | hx
+      · assumption
+      · exact ih x hx
+    · cases hx
+
+/-- `eat_whitespace` on clean input, whatever the input is -/
+theorem eatWhitespace_total (bs : List Byte) (r : Reader) (hr : Ready r bs) (fuel : Nat)
+    (hf : bs.length < fuel) :
+    ∃ r', eatWhitespace fuel r = (.ok (), r') ∧ Peeked r' (bs.dropWhile isWs) := by
+  have hsplit : bs.takeWhile isWs ++ bs.dropWhile isWs = bs := List.takeWhile_append_dropWhile
+  have hlen : (bs.takeWhile isWs).length ≤ bs.length := by
+    have := congrArg List.length hsplit
+    simp only [List.length_append] at this; omega
+  refine eatWhitespace_ready (bs.takeWhile isWs) (mem_takeWhile isWs bs) (bs.dropWhile isWs) ?_ r
+    (by rw [hsplit]; exact hr) fuel (by omega)
+  intro b hb
+  have := List.head?_dropWhile_not isWs bs
+  rw [Option.mem_def.1 hb] at this
+  exact this
+
+/-- after the getter: white space, then a byte `b` that is not white space -/
+theorem garbage_peek (ws : List Byte) (hws : ∀ x ∈ ws, isWs x = true) (b : Byte) (hb : isWs b = false)
+    (rest : List Byte) (r : Reader) (hr : Ready r (ws ++ b :: rest)) (fuel : Nat) (hf : ws.length < fuel) :
+    ∃ r', eatWhitespace fuel r = (.ok (), r') ∧ peek r' = (.ok (some b), r') := by
+  obtain ⟨r', h, hr'⟩ := eatWhitespace_ready ws hws (b :: rest)
+    (by intro x hx; simp at hx; subst hx; exact hb) r hr fuel hf
+  exact ⟨r', h, peek_at hr'⟩
+
+/-- **C18 (5a).**  `Filter/Splitter/Grouper::from_str`: if the getter has been read and, after
+optional white space, a byte `b` is left, the text is rejected with `expectingEof … b`. -/
+theorem parseWholeExpr_trailing_garbage (s : Str) (e : Expr) (r2 : Reader)
+    (hget : readGetter (exprFuel s) (eatWhitespace (exprFuel s) (Reader.ofString s)).2 = (.ok e, r2))
+    (ws : List Byte) (hws : ∀ x ∈ ws, isWs x = true) (b : Byte) (hb : isWs b = false) (rest : List Byte)
+    (hr2 : Ready r2 (ws ++ b :: rest)) (hf : ws.length < exprFuel s) :
+    ∃ loc, parseWholeExpr s = .error (.expectingEof loc b) ∧
+      parseOptionExpr s = .error (exprErrText (.expectingEof loc b)) := by
+  obtain ⟨r1, h1, _⟩ := eatWhitespace_total (utf8 s) (Reader.ofString s) (ready_ofBytes _ _) (exprFuel s)
+    (by unfold exprFuel; omega)
+  rw [h1] at hget
+  obtain ⟨r3, h3, hp⟩ := garbage_peek ws hws b hb rest r2 hr2 _ hf
+  have : parseWholeExpr s = .error (.expectingEof r3.loc b) := by
+    unfold parseWholeExpr
+    simp only
+    rw [EM.bind_ok (liftP_ok h1), EM.bind_ok hget, EM.bind_ok (liftP_ok h3), EM.bind_ok (liftP_ok hp)]
+    rfl
+  exact ⟨r3.loc, this, by unfold parseOptionExpr; rw [this]⟩
+
+/-- **C18 (5b).**  `Selection::from_str`: after the getter only `=name` may follow. -/
+theorem parseSelection_trailing_garbage (s : Str) (e : Expr) (r2 : Reader)
+    (hget : readGetter (exprFuel s) (eatWhitespace (exprFuel s) (Reader.ofString s)).2 = (.ok e, r2))
+    (ws : List Byte) (hws : ∀ x ∈ ws, isWs x = true) (b : Byte) (hb : isWs b = false) (hb' : b ≠ 61)
+    (rest : List Byte) (hr2 : Ready r2 (ws ++ b :: rest)) (hf : ws.length < exprFuel s) :
+    ∃ loc, parseSelection s = .error (exprErrText (.expectingEquals loc b)) := by
+  obtain ⟨r1, h1, _⟩ := eatWhitespace_total (utf8 s) (Reader.ofString s) (ready_ofBytes _ _) (exprFuel s)
+    (by unfold exprFuel; omega)
+  rw [h1] at hget
+  obtain ⟨r3, h3, hp⟩ := garbage_peek ws hws b hb rest r2 hr2 _ hf
+  refine ⟨r3.loc, ?_⟩
+  unfold parseSelection
+  simp only
+  rw [EM.bind_ok (liftP_ok h1), EM.bind_ok hget, EM.bind_ok (liftP_ok h3), EM.bind_ok (liftP_ok hp)]
+  have hfail : (do let l ← emLoc; (EM.fail (.expectingEquals l b) : EM (Str × Expr))) r3 =
+      (.error (.expectingEquals r3.loc b), r3) := rfl
+  generalize hx : some b = x
+  split
+  · next v heq =>
+    split at heq
+    · exact absurd (by simpa using hx) hb'
+    · next ch _ => cases hx; rw [hfail] at heq; cases heq
+    · cases hx
+  · next err heq =>
+    split at heq
+    · exact absurd (by simpa using hx) hb'
+    · next ch _ => cases hx; rw [hfail] at heq; cases heq; rfl
+    · cases hx
+
+/-- **C18 (5c).**  `PreSet::from_str` (`key=value`, `@key=macro`): garbage after the value. -/
+theorem parsePreSet_trailing_garbage (orc : Oracles) (s : Str) (heq : s.any (· = '=') = true)
+    (e : Expr) (r2 : Reader)
+    (hget : readGetter (exprFuel ((s.dropWhile (· ≠ '=')).drop 1))
+      (Reader.ofString ((s.dropWhile (· ≠ '=')).drop 1)) = (.ok e, r2))
+    (ws : List Byte) (hws : ∀ x ∈ ws, isWs x = true) (b : Byte) (hb : isWs b = false) (rest : List Byte)
+    (hr2 : Ready r2 (ws ++ b :: rest)) (hf : ws.length < exprFuel ((s.dropWhile (· ≠ '=')).drop 1)) :
+    ∃ loc, parsePreSet orc s = .error (.config (exprErrText (.expectingEof loc b))) := by
+  obtain ⟨r3, h3, hp⟩ := garbage_peek ws hws b hb rest r2 hr2 _ hf
+  refine ⟨r3.loc, ?_⟩
+  have : parsePreSet.parseWholeExprNoLeadWs ((s.dropWhile (· ≠ '=')).drop 1) =
+      .error (exprErrText (.expectingEof r3.loc b)) := by
+    unfold parsePreSet.parseWholeExprNoLeadWs
+    simp only
+    rw [EM.bind_ok hget, EM.bind_ok (liftP_ok h3), EM.bind_ok (liftP_ok hp)]
+    rfl
+  unfold parsePreSet
+  simp only [heq, Bool.not_true, Bool.false_eq_true, if_false, this]
+
+/-- `read_to_eof` from the look-ahead byte on clean input -/
+theorem readRestPeek_spec (bs : List Byte) (r : Reader) (hr : Ready r bs) (fuel : Nat)
+    (hf : bs.length < fuel) (acc : List Byte) :
+    ∃ r', readRestPeek fuel acc r = (.ok (acc ++ bs), r') := by
+  induction bs generalizing r fuel acc with
+  | nil =>
+    obtain ⟨fuel, rfl⟩ : ∃ k, fuel = k + 1 := ⟨fuel - 1, by omega⟩
+    obtain ⟨r1, hp, _⟩ := peek_ready hr
+    refine ⟨r1, ?_⟩
+    unfold readRestPeek
+    rw [EM.bind_ok (liftP_ok hp)]
+    simp
+  | cons b bs ih =>
+    obtain ⟨fuel, rfl⟩ : ∃ k, fuel = k + 1 := ⟨fuel - 1, by omega⟩
+    obtain ⟨r1, hp, hr1⟩ := peek_ready hr
+    have hr1' : At r1 b bs := hr1
+    obtain ⟨r2, hn, hr2⟩ := next_at hr1'
+    obtain ⟨r3, h3⟩ := ih r2 hr2.ready fuel (by simp at hf; omega) (acc ++ [b])
+    refine ⟨r3, ?_⟩
+    unfold readRestPeek
+    rw [EM.bind_ok (liftP_ok hp)]
+    simp only [List.head?_cons]
+    rw [EM.bind_ok (liftP_ok hn), h3]
+    simp
+
+theorem directionOf_unknown (t : Str)
+    (h : (trimStr t).map upperChar ≠ [] ∧ (trimStr t).map upperChar ≠ "ASC".toList ∧
+      (trimStr t).map upperChar ≠ "DESC".toList) : directionOf t = .error "UnknownOrder" := by
+  obtain ⟨h0, h1, h2⟩ := h
+  unfold directionOf
+  simp only [h0, h1, h2, false_or, if_false]
+
+/-- **C18 (5d).**  `Sorter::from_str`: whatever is left after the getter is the direction word; if
+it is not (in any letter case, trimmed) empty, `ASC` or `DESC`, the sorter is rejected. -/
+theorem parseSorter_unknown_direction (s : Str) (e : Expr) (r2 : Reader)
+    (hget : readGetter (exprFuel s) (eatWhitespace (exprFuel s) (Reader.ofString s)).2 = (.ok e, r2))
+    (bs : List Byte) (hr2 : Ready r2 bs) (hf : bs.length < exprFuel s) (t : Str)
+    (hdec : utf8Decode? bs = some t)
+    (hdir : (trimStr t).map upperChar ≠ [] ∧ (trimStr t).map upperChar ≠ "ASC".toList ∧
+      (trimStr t).map upperChar ≠ "DESC".toList) :
+    parseSorterParts s = .ok (e, t) ∧ parseSorter s = .error "UnknownOrder" := by
+  obtain ⟨r1, h1, _⟩ := eatWhitespace_total (utf8 s) (Reader.ofString s) (ready_ofBytes _ _) (exprFuel s)
+    (by unfold exprFuel; omega)
+  rw [h1] at hget
+  obtain ⟨r3, h3⟩ := readRestPeek_spec bs r2 hr2 (exprFuel s) hf []
+  have hparts : parseSorterParts s = .ok (e, t) := by
+    unfold parseSorterParts
+    simp only
+    rw [EM.bind_ok (liftP_ok h1), EM.bind_ok hget, EM.bind_ok h3]
+    simp only [EM.pure_apply, List.nil_append, hdec]
+  refine ⟨hparts, ?_⟩
+  unfold parseSorter
+  rw [hparts]
+  simp only [directionOf_unknown t hdir]
+
+
+/-- **C18 (5a), rendered form** (no hypothesis about the run of the parser): a renderable getter
+followed by optional white space and a non-blank byte `b` (directly after the getter `b` must be a
+delimiter, otherwise it would belong to the getter) is rejected with `expectingEof … b`. -/
+theorem garbage_after_render (st : Style) (hst : StyleOK st) (e : Expr) (he : WFR st.o e) (s : Str)
+    (W : List Byte) (hW : ∀ x ∈ W, isWs x = true) (b : Byte) (hb : isWs b = false) (rest : List Byte)
+    (hs : utf8 s = utf8 (render st e) ++ (W ++ b :: rest)) (hdel : W ≠ [] ∨ isDelim b = true) :
+    ∃ loc, parseWholeExpr s = .error (.expectingEof loc b) ∧
+      parseOptionExpr s = .error (exprErrText (.expectingEof loc b)) := by
+  obtain ⟨c, t, hct, hc1, _, _⟩ := render_head st e he
+  have hlen : (utf8 s).length = (utf8 (render st e)).length + (W.length + (rest.length + 1)) := by
+    rw [hs]; simp
+  obtain ⟨r1, h1, hr1⟩ := eatWhitespace_ready [] (by simp) (utf8 s)
+    (by rw [hs, hct]; intro x hx; simp at hx; subst hx; exact hc1) (Reader.ofString s)
+    (ready_ofBytes (utf8 s) _) (exprFuel s) (by unfold exprFuel; simp)
+  obtain ⟨r2, h2, hr2⟩ := parse_render st hst e he [] (by simp) (W ++ b :: rest)
+    (by
+      intro x hx
+      cases W with
+      | nil =>
+        simp at hx; subst hx
+        exact hdel.resolve_left (by simp)
+      | cons w W =>
+        simp at hx; subst hx
+        simp [isDelim, hW w (by simp)])
+    r1 (by rw [← hs]; simpa using hr1.ready) (exprFuel s)
+    (by unfold exprFuel; simp only [List.length_nil]; omega)
+  exact parseWholeExpr_trailing_garbage s e r2 (by rw [h1]; exact h2) W hW b hb rest hr2
+    (by unfold exprFuel; omega)
+
+/-- the run of the getter that the theorems of this section assume, for a rendered getter followed
+by any text `tail` that starts with a delimiter (with and without the leading `eat_whitespace`) -/
+theorem render_run (st : Style) (hst : StyleOK st) (e : Expr) (he : WFR st.o e) (s : Str)
+    (tail : List Byte) (hs : utf8 s = utf8 (render st e) ++ tail) (hd : DelimRest tail) :
+    (∃ r2, readGetter (exprFuel s) (eatWhitespace (exprFuel s) (Reader.ofString s)).2 = (.ok e, r2) ∧
+      Ready r2 tail) ∧
+    (∃ r2, readGetter (exprFuel s) (Reader.ofString s) = (.ok e, r2) ∧ Ready r2 tail) := by
+  obtain ⟨c, t, hct, hc1, _, _⟩ := render_head st e he
+  have hlen : (utf8 s).length = (utf8 (render st e)).length + tail.length := by
+    rw [hs]; simp
+  obtain ⟨r1, h1, hr1⟩ := eatWhitespace_ready [] (by simp) (utf8 s)
+    (by rw [hs, hct]; intro x hx; simp at hx; subst hx; exact hc1) (Reader.ofString s)
+    (ready_ofBytes (utf8 s) _) (exprFuel s) (by unfold exprFuel; simp)
+  constructor
+  · obtain ⟨r2, h2, hr2⟩ := parse_render st hst e he [] (by simp) tail hd r1
+      (by rw [← hs]; simpa using hr1.ready) (exprFuel s)
+      (by unfold exprFuel; simp only [List.length_nil]; omega)
+    exact ⟨r2, by rw [h1]; exact h2, hr2⟩
+  · exact parse_render st hst e he [] (by simp) tail hd (Reader.ofString s)
+      (by rw [← hs]; exact ready_ofBytes (utf8 s) _) (exprFuel s)
+      (by unfold exprFuel; simp only [List.length_nil]; omega)
+
+/-! ### Non-vacuity for item 5 -/
+
+def isEofErr (x : Except ExprErr Expr) (b : Byte) : Bool :=
+  match x with
+  | .error (.expectingEof _ c) => c == b
+  | _ => false
+
+def isErrMsg {α} (x : Except String α) (m : String) : Bool :=
+  match x with
+  | .error e => e == m
+  | .ok _ => false
+
+def isErr {ε α} (x : Except ε α) : Bool :=
+  match x with
+  | .error _ => true
+  | .ok _ => false
+
+example : isEofErr (parseWholeExpr "(take . 2) x".toList) 120 = true := by decide +kernel
+example : isEofErr (parseWholeExpr "(take . 2))".toList) 41 = true := by decide +kernel
+example : isEofErr (parseWholeExpr ".a .b".toList) 46 = true := by decide +kernel
+example : isErr (parseOptionExpr "(take . 2) x".toList) = true := by decide +kernel
+example : isErr (parseSelection ".a x".toList) = true := by decide +kernel
+example : isErr (parseSelection ".a = x".toList) = false := by decide +kernel
+example : isErr (parsePreSet {} "k=1 x".toList) = true := by decide +kernel
+example : isErr (parsePreSet {} "k=1 ".toList) = false := by decide +kernel
+example : isErrMsg (parseSorter ".a down".toList) "UnknownOrder" = true := by decide +kernel
+example : isErrMsg (parseSorter ".a DeSc ".toList) "UnknownOrder" = false := by decide +kernel
+/-- an instance of the hypotheses of `garbage_after_render` -/
+example : ∃ loc, parseWholeExpr "(take . 2)  x".toList = .error (.expectingEof loc 120) ∧
+    parseOptionExpr "(take . 2)  x".toList = .error (exprErrText (.expectingEof loc 120)) :=
+  garbage_after_render {} (SepStyle.style_ok .space) take2
+    (by
+      simp only [take2, WFR, WFRList, Printable, NumPrintable, and_true]
+      exact ⟨(arityOK_iff _ _).1 (by decide +kernel), by decide, by decide, by rw [norm]; rfl⟩)
+    "(take . 2)  x".toList [32, 32] (by decide) 120 (by decide) [] (by decide +kernel) (Or.inl (by simp))
+
+
+/-- `.a` -/
+def dotA : Expr := .extract 0 [.key "a".toList]
+theorem dotA_wfr : WFR {} dotA := by
+  intro s hs
+  simp only [List.mem_singleton] at hs
+  subst hs
+  decide
+
+theorem delimRest_space (l : List Byte) : DelimRest (32 :: l) := by
+  intro b hb
+  have : b = 32 := by simpa [eq_comm] using hb
+  subst this; decide
+
+/-- instances of the hypotheses of 5b, 5c, 5d -/
+example : ∃ loc, parseSelection ".a x".toList = .error (exprErrText (.expectingEquals loc 120)) := by
+  obtain ⟨⟨r2, hget, hr2⟩, _⟩ := render_run {} (SepStyle.style_ok .space) dotA dotA_wfr ".a x".toList
+    [32, 120] (by decide) (delimRest_space _)
+  exact parseSelection_trailing_garbage _ _ r2 hget [32] (by decide) 120 (by decide) (by decide) [] hr2
+    (by decide)
+
+example : ∃ loc, parsePreSet {} "k=.a x".toList = .error (.config (exprErrText (.expectingEof loc 120))) := by
+  obtain ⟨_, ⟨r2, hget, hr2⟩⟩ := render_run {} (SepStyle.style_ok .space) dotA dotA_wfr ".a x".toList
+    [32, 120] (by decide) (delimRest_space _)
+  exact parsePreSet_trailing_garbage {} "k=.a x".toList (by decide) dotA r2 hget [32] (by decide) 120
+    (by decide) [] hr2 (by decide)
+
+example : parseSorter ".a down".toList = .error "UnknownOrder" := by
+  obtain ⟨⟨r2, hget, hr2⟩, _⟩ := render_run {} (SepStyle.style_ok .space) dotA dotA_wfr ".a down".toList
+    (utf8 " down".toList) (by decide) (delimRest_space _)
+  exact (parseSorter_unknown_direction _ _ r2 hget _ hr2 (by decide) " down".toList (utf8Decode_utf8 _)
+    (by decide)).2
+
 -- #print axioms parsed_ast_well_formed
 -- #print axioms parseWholeExpr_well_formed
 -- #print axioms alias_same_ast
+-- #print axioms Jawk.PR.parse_render
+-- #print axioms Jawk.PR.separator_independent
+-- #print axioms Jawk.PR.style_independent
+-- #print axioms Jawk.PR.parsed_ast_well_formed
+-- #print axioms Jawk.PR.alias_same_ast
+-- #print axioms Jawk.PR.dot_sugar
+-- #print axioms Jawk.PR.dot_sugar_whole
+-- #print axioms Jawk.PR.parseWholeExpr_trailing_garbage
+-- #print axioms Jawk.PR.parseSelection_trailing_garbage
+-- #print axioms Jawk.PR.parsePreSet_trailing_garbage
+-- #print axioms Jawk.PR.parseSorter_unknown_direction
+-- #print axioms Jawk.PR.garbage_after_render
 
 end Jawk.PR
